@@ -450,338 +450,658 @@ package gomatrixserverlib
 //@   ensures table.1.ver: roomVersionMeta["1"].(RoomVersionImpl).ver == "1"
 //@   ensures table.1.stable: roomVersionMeta["1"].(RoomVersionImpl).stable == true
 //@   ensures table.1.stateResAlgorithm: roomVersionMeta["1"].(RoomVersionImpl).stateResAlgorithm == StateResV1
+//@   ensures C10.table.1.stateResAlgorithm: roomVersionMeta["1"].(RoomVersionImpl).stateResAlgorithm == StateResV1
 //@   ensures table.1.eventFormat: roomVersionMeta["1"].(RoomVersionImpl).eventFormat == EventFormatV1
+//@   ensures C03.table.1.eventFormat: roomVersionMeta["1"].(RoomVersionImpl).eventFormat == EventFormatV1
 //@   ensures table.1.eventIDFormat: roomVersionMeta["1"].(RoomVersionImpl).eventIDFormat == EventIDFormatV1
+//@   ensures C06.table.1.eventIDFormat: roomVersionMeta["1"].(RoomVersionImpl).eventIDFormat == EventIDFormatV1
+//@   ensures C03.table.1.eventIDFormat: roomVersionMeta["1"].(RoomVersionImpl).eventIDFormat == EventIDFormatV1
 //@   ensures table.1.redactionAlgorithm: roomVersionMeta["1"].(RoomVersionImpl).redactionAlgorithm == redactEventJSONV1
+//@   ensures C06.table.1.redactionAlgorithm: roomVersionMeta["1"].(RoomVersionImpl).redactionAlgorithm == redactEventJSONV1
+//@   ensures C05.table.1.redactionAlgorithm: roomVersionMeta["1"].(RoomVersionImpl).redactionAlgorithm == redactEventJSONV1
 //@   ensures table.1.signatureValidityCheckFunc: roomVersionMeta["1"].(RoomVersionImpl).signatureValidityCheckFunc == NoStrictValidityCheck
+//@   ensures C06.table.1.signatureValidityCheckFunc: roomVersionMeta["1"].(RoomVersionImpl).signatureValidityCheckFunc == NoStrictValidityCheck
 //@   ensures table.1.canonicalJSONCheck: roomVersionMeta["1"].(RoomVersionImpl).canonicalJSONCheck == noVerifyCanonicalJSON
+//@   ensures C01.table.1.canonicalJSONCheck: roomVersionMeta["1"].(RoomVersionImpl).canonicalJSONCheck == noVerifyCanonicalJSON
 //@   ensures table.1.checkPowerLevelEvent: roomVersionMeta["1"].(RoomVersionImpl).checkPowerLevelEvent == checkPowerLevelEventV1
+//@   ensures C07.table.1.checkPowerLevelEvent: roomVersionMeta["1"].(RoomVersionImpl).checkPowerLevelEvent == checkPowerLevelEventV1
+//@   ensures C08.table.1.checkPowerLevelEvent: roomVersionMeta["1"].(RoomVersionImpl).checkPowerLevelEvent == checkPowerLevelEventV1
 //@   ensures table.1.parsePowerLevelsFunc: roomVersionMeta["1"].(RoomVersionImpl).parsePowerLevelsFunc == parsePowerLevels
+//@   ensures C08.table.1.parsePowerLevelsFunc: roomVersionMeta["1"].(RoomVersionImpl).parsePowerLevelsFunc == parsePowerLevels
 //@   ensures table.1.domainlessRoomID: roomVersionMeta["1"].(RoomVersionImpl).domainlessRoomID == false
 //@   ensures table.1.privilegedCreators: roomVersionMeta["1"].(RoomVersionImpl).privilegedCreators == false
+//@   ensures C07.table.1.privilegedCreators: roomVersionMeta["1"].(RoomVersionImpl).privilegedCreators == false
 //@   ensures table.1.checkRestrictedJoin: roomVersionMeta["1"].(RoomVersionImpl).checkRestrictedJoin == noCheckRestrictedJoin
 //@   ensures table.1.restrictedJoinServernameFunc: roomVersionMeta["1"].(RoomVersionImpl).restrictedJoinServernameFunc == emptyAuthorisedViaServerName
+//@   ensures C06.table.1.restrictedJoinServernameFunc: roomVersionMeta["1"].(RoomVersionImpl).restrictedJoinServernameFunc == emptyAuthorisedViaServerName
 //@   ensures table.1.checkRestrictedJoinAllowedFunc: roomVersionMeta["1"].(RoomVersionImpl).checkRestrictedJoinAllowedFunc == disallowRestrictedJoins
+//@   ensures C07.table.1.checkRestrictedJoinAllowedFunc: roomVersionMeta["1"].(RoomVersionImpl).checkRestrictedJoinAllowedFunc == disallowRestrictedJoins
 //@   ensures table.1.checkKnockingAllowedFunc: roomVersionMeta["1"].(RoomVersionImpl).checkKnockingAllowedFunc == disallowKnocking
+//@   ensures C07.table.1.checkKnockingAllowedFunc: roomVersionMeta["1"].(RoomVersionImpl).checkKnockingAllowedFunc == disallowKnocking
 //@   ensures table.1.checkCreateEvent: roomVersionMeta["1"].(RoomVersionImpl).checkCreateEvent == checkCreateEventV1
+//@   ensures C07.table.1.checkCreateEvent: roomVersionMeta["1"].(RoomVersionImpl).checkCreateEvent == checkCreateEventV1
 //@   ensures table.1.newEventFromUntrustedJSONFunc: roomVersionMeta["1"].(RoomVersionImpl).newEventFromUntrustedJSONFunc == newEventFromUntrustedJSONV1
+//@   ensures C03.table.1.newEventFromUntrustedJSONFunc: roomVersionMeta["1"].(RoomVersionImpl).newEventFromUntrustedJSONFunc == newEventFromUntrustedJSONV1
+//@   ensures C04.table.1.newEventFromUntrustedJSONFunc: roomVersionMeta["1"].(RoomVersionImpl).newEventFromUntrustedJSONFunc == newEventFromUntrustedJSONV1
 //@   ensures table.1.newEventFromTrustedJSONFunc: roomVersionMeta["1"].(RoomVersionImpl).newEventFromTrustedJSONFunc == newEventFromTrustedJSONV1
+//@   ensures C03.table.1.newEventFromTrustedJSONFunc: roomVersionMeta["1"].(RoomVersionImpl).newEventFromTrustedJSONFunc == newEventFromTrustedJSONV1
 //@   ensures table.1.newEventFromTrustedJSONWithEventIDFunc: roomVersionMeta["1"].(RoomVersionImpl).newEventFromTrustedJSONWithEventIDFunc == newEventFromTrustedJSONWithEventIDV1
+//@   ensures C03.table.1.newEventFromTrustedJSONWithEventIDFunc: roomVersionMeta["1"].(RoomVersionImpl).newEventFromTrustedJSONWithEventIDFunc == newEventFromTrustedJSONWithEventIDV1
 //@   ensures table.2.present: "2" in roomVersionMeta
 //@   ensures table.2.ver: roomVersionMeta["2"].(RoomVersionImpl).ver == "2"
 //@   ensures table.2.stable: roomVersionMeta["2"].(RoomVersionImpl).stable == true
 //@   ensures table.2.stateResAlgorithm: roomVersionMeta["2"].(RoomVersionImpl).stateResAlgorithm == StateResV2
+//@   ensures C10.table.2.stateResAlgorithm: roomVersionMeta["2"].(RoomVersionImpl).stateResAlgorithm == StateResV2
 //@   ensures table.2.eventFormat: roomVersionMeta["2"].(RoomVersionImpl).eventFormat == EventFormatV1
+//@   ensures C03.table.2.eventFormat: roomVersionMeta["2"].(RoomVersionImpl).eventFormat == EventFormatV1
 //@   ensures table.2.eventIDFormat: roomVersionMeta["2"].(RoomVersionImpl).eventIDFormat == EventIDFormatV1
+//@   ensures C06.table.2.eventIDFormat: roomVersionMeta["2"].(RoomVersionImpl).eventIDFormat == EventIDFormatV1
+//@   ensures C03.table.2.eventIDFormat: roomVersionMeta["2"].(RoomVersionImpl).eventIDFormat == EventIDFormatV1
 //@   ensures table.2.redactionAlgorithm: roomVersionMeta["2"].(RoomVersionImpl).redactionAlgorithm == redactEventJSONV1
+//@   ensures C06.table.2.redactionAlgorithm: roomVersionMeta["2"].(RoomVersionImpl).redactionAlgorithm == redactEventJSONV1
+//@   ensures C05.table.2.redactionAlgorithm: roomVersionMeta["2"].(RoomVersionImpl).redactionAlgorithm == redactEventJSONV1
 //@   ensures table.2.signatureValidityCheckFunc: roomVersionMeta["2"].(RoomVersionImpl).signatureValidityCheckFunc == NoStrictValidityCheck
+//@   ensures C06.table.2.signatureValidityCheckFunc: roomVersionMeta["2"].(RoomVersionImpl).signatureValidityCheckFunc == NoStrictValidityCheck
 //@   ensures table.2.canonicalJSONCheck: roomVersionMeta["2"].(RoomVersionImpl).canonicalJSONCheck == noVerifyCanonicalJSON
+//@   ensures C01.table.2.canonicalJSONCheck: roomVersionMeta["2"].(RoomVersionImpl).canonicalJSONCheck == noVerifyCanonicalJSON
 //@   ensures table.2.checkPowerLevelEvent: roomVersionMeta["2"].(RoomVersionImpl).checkPowerLevelEvent == checkPowerLevelEventV1
+//@   ensures C07.table.2.checkPowerLevelEvent: roomVersionMeta["2"].(RoomVersionImpl).checkPowerLevelEvent == checkPowerLevelEventV1
+//@   ensures C08.table.2.checkPowerLevelEvent: roomVersionMeta["2"].(RoomVersionImpl).checkPowerLevelEvent == checkPowerLevelEventV1
 //@   ensures table.2.parsePowerLevelsFunc: roomVersionMeta["2"].(RoomVersionImpl).parsePowerLevelsFunc == parsePowerLevels
+//@   ensures C08.table.2.parsePowerLevelsFunc: roomVersionMeta["2"].(RoomVersionImpl).parsePowerLevelsFunc == parsePowerLevels
 //@   ensures table.2.domainlessRoomID: roomVersionMeta["2"].(RoomVersionImpl).domainlessRoomID == false
 //@   ensures table.2.privilegedCreators: roomVersionMeta["2"].(RoomVersionImpl).privilegedCreators == false
+//@   ensures C07.table.2.privilegedCreators: roomVersionMeta["2"].(RoomVersionImpl).privilegedCreators == false
 //@   ensures table.2.checkRestrictedJoin: roomVersionMeta["2"].(RoomVersionImpl).checkRestrictedJoin == noCheckRestrictedJoin
 //@   ensures table.2.restrictedJoinServernameFunc: roomVersionMeta["2"].(RoomVersionImpl).restrictedJoinServernameFunc == emptyAuthorisedViaServerName
+//@   ensures C06.table.2.restrictedJoinServernameFunc: roomVersionMeta["2"].(RoomVersionImpl).restrictedJoinServernameFunc == emptyAuthorisedViaServerName
 //@   ensures table.2.checkRestrictedJoinAllowedFunc: roomVersionMeta["2"].(RoomVersionImpl).checkRestrictedJoinAllowedFunc == disallowRestrictedJoins
+//@   ensures C07.table.2.checkRestrictedJoinAllowedFunc: roomVersionMeta["2"].(RoomVersionImpl).checkRestrictedJoinAllowedFunc == disallowRestrictedJoins
 //@   ensures table.2.checkKnockingAllowedFunc: roomVersionMeta["2"].(RoomVersionImpl).checkKnockingAllowedFunc == disallowKnocking
+//@   ensures C07.table.2.checkKnockingAllowedFunc: roomVersionMeta["2"].(RoomVersionImpl).checkKnockingAllowedFunc == disallowKnocking
 //@   ensures table.2.checkCreateEvent: roomVersionMeta["2"].(RoomVersionImpl).checkCreateEvent == checkCreateEventV1
+//@   ensures C07.table.2.checkCreateEvent: roomVersionMeta["2"].(RoomVersionImpl).checkCreateEvent == checkCreateEventV1
 //@   ensures table.2.newEventFromUntrustedJSONFunc: roomVersionMeta["2"].(RoomVersionImpl).newEventFromUntrustedJSONFunc == newEventFromUntrustedJSONV1
+//@   ensures C03.table.2.newEventFromUntrustedJSONFunc: roomVersionMeta["2"].(RoomVersionImpl).newEventFromUntrustedJSONFunc == newEventFromUntrustedJSONV1
+//@   ensures C04.table.2.newEventFromUntrustedJSONFunc: roomVersionMeta["2"].(RoomVersionImpl).newEventFromUntrustedJSONFunc == newEventFromUntrustedJSONV1
 //@   ensures table.2.newEventFromTrustedJSONFunc: roomVersionMeta["2"].(RoomVersionImpl).newEventFromTrustedJSONFunc == newEventFromTrustedJSONV1
+//@   ensures C03.table.2.newEventFromTrustedJSONFunc: roomVersionMeta["2"].(RoomVersionImpl).newEventFromTrustedJSONFunc == newEventFromTrustedJSONV1
 //@   ensures table.2.newEventFromTrustedJSONWithEventIDFunc: roomVersionMeta["2"].(RoomVersionImpl).newEventFromTrustedJSONWithEventIDFunc == newEventFromTrustedJSONWithEventIDV1
+//@   ensures C03.table.2.newEventFromTrustedJSONWithEventIDFunc: roomVersionMeta["2"].(RoomVersionImpl).newEventFromTrustedJSONWithEventIDFunc == newEventFromTrustedJSONWithEventIDV1
 //@   ensures table.3.present: "3" in roomVersionMeta
 //@   ensures table.3.ver: roomVersionMeta["3"].(RoomVersionImpl).ver == "3"
 //@   ensures table.3.stable: roomVersionMeta["3"].(RoomVersionImpl).stable == true
 //@   ensures table.3.stateResAlgorithm: roomVersionMeta["3"].(RoomVersionImpl).stateResAlgorithm == StateResV2
+//@   ensures C10.table.3.stateResAlgorithm: roomVersionMeta["3"].(RoomVersionImpl).stateResAlgorithm == StateResV2
 //@   ensures table.3.eventFormat: roomVersionMeta["3"].(RoomVersionImpl).eventFormat == EventFormatV2
+//@   ensures C03.table.3.eventFormat: roomVersionMeta["3"].(RoomVersionImpl).eventFormat == EventFormatV2
 //@   ensures table.3.eventIDFormat: roomVersionMeta["3"].(RoomVersionImpl).eventIDFormat == EventIDFormatV2
+//@   ensures C06.table.3.eventIDFormat: roomVersionMeta["3"].(RoomVersionImpl).eventIDFormat == EventIDFormatV2
+//@   ensures C03.table.3.eventIDFormat: roomVersionMeta["3"].(RoomVersionImpl).eventIDFormat == EventIDFormatV2
 //@   ensures table.3.redactionAlgorithm: roomVersionMeta["3"].(RoomVersionImpl).redactionAlgorithm == redactEventJSONV1
+//@   ensures C06.table.3.redactionAlgorithm: roomVersionMeta["3"].(RoomVersionImpl).redactionAlgorithm == redactEventJSONV1
+//@   ensures C05.table.3.redactionAlgorithm: roomVersionMeta["3"].(RoomVersionImpl).redactionAlgorithm == redactEventJSONV1
 //@   ensures table.3.signatureValidityCheckFunc: roomVersionMeta["3"].(RoomVersionImpl).signatureValidityCheckFunc == NoStrictValidityCheck
+//@   ensures C06.table.3.signatureValidityCheckFunc: roomVersionMeta["3"].(RoomVersionImpl).signatureValidityCheckFunc == NoStrictValidityCheck
 //@   ensures table.3.canonicalJSONCheck: roomVersionMeta["3"].(RoomVersionImpl).canonicalJSONCheck == noVerifyCanonicalJSON
+//@   ensures C01.table.3.canonicalJSONCheck: roomVersionMeta["3"].(RoomVersionImpl).canonicalJSONCheck == noVerifyCanonicalJSON
 //@   ensures table.3.checkPowerLevelEvent: roomVersionMeta["3"].(RoomVersionImpl).checkPowerLevelEvent == checkPowerLevelEventV1
+//@   ensures C07.table.3.checkPowerLevelEvent: roomVersionMeta["3"].(RoomVersionImpl).checkPowerLevelEvent == checkPowerLevelEventV1
+//@   ensures C08.table.3.checkPowerLevelEvent: roomVersionMeta["3"].(RoomVersionImpl).checkPowerLevelEvent == checkPowerLevelEventV1
 //@   ensures table.3.parsePowerLevelsFunc: roomVersionMeta["3"].(RoomVersionImpl).parsePowerLevelsFunc == parsePowerLevels
+//@   ensures C08.table.3.parsePowerLevelsFunc: roomVersionMeta["3"].(RoomVersionImpl).parsePowerLevelsFunc == parsePowerLevels
 //@   ensures table.3.domainlessRoomID: roomVersionMeta["3"].(RoomVersionImpl).domainlessRoomID == false
 //@   ensures table.3.privilegedCreators: roomVersionMeta["3"].(RoomVersionImpl).privilegedCreators == false
+//@   ensures C07.table.3.privilegedCreators: roomVersionMeta["3"].(RoomVersionImpl).privilegedCreators == false
 //@   ensures table.3.checkRestrictedJoin: roomVersionMeta["3"].(RoomVersionImpl).checkRestrictedJoin == noCheckRestrictedJoin
 //@   ensures table.3.restrictedJoinServernameFunc: roomVersionMeta["3"].(RoomVersionImpl).restrictedJoinServernameFunc == emptyAuthorisedViaServerName
+//@   ensures C06.table.3.restrictedJoinServernameFunc: roomVersionMeta["3"].(RoomVersionImpl).restrictedJoinServernameFunc == emptyAuthorisedViaServerName
 //@   ensures table.3.checkRestrictedJoinAllowedFunc: roomVersionMeta["3"].(RoomVersionImpl).checkRestrictedJoinAllowedFunc == disallowRestrictedJoins
+//@   ensures C07.table.3.checkRestrictedJoinAllowedFunc: roomVersionMeta["3"].(RoomVersionImpl).checkRestrictedJoinAllowedFunc == disallowRestrictedJoins
 //@   ensures table.3.checkKnockingAllowedFunc: roomVersionMeta["3"].(RoomVersionImpl).checkKnockingAllowedFunc == disallowKnocking
+//@   ensures C07.table.3.checkKnockingAllowedFunc: roomVersionMeta["3"].(RoomVersionImpl).checkKnockingAllowedFunc == disallowKnocking
 //@   ensures table.3.checkCreateEvent: roomVersionMeta["3"].(RoomVersionImpl).checkCreateEvent == checkCreateEventV1
+//@   ensures C07.table.3.checkCreateEvent: roomVersionMeta["3"].(RoomVersionImpl).checkCreateEvent == checkCreateEventV1
 //@   ensures table.3.newEventFromUntrustedJSONFunc: roomVersionMeta["3"].(RoomVersionImpl).newEventFromUntrustedJSONFunc == newEventFromUntrustedJSONV2
+//@   ensures C03.table.3.newEventFromUntrustedJSONFunc: roomVersionMeta["3"].(RoomVersionImpl).newEventFromUntrustedJSONFunc == newEventFromUntrustedJSONV2
+//@   ensures C04.table.3.newEventFromUntrustedJSONFunc: roomVersionMeta["3"].(RoomVersionImpl).newEventFromUntrustedJSONFunc == newEventFromUntrustedJSONV2
 //@   ensures table.3.newEventFromTrustedJSONFunc: roomVersionMeta["3"].(RoomVersionImpl).newEventFromTrustedJSONFunc == newEventFromTrustedJSONV2
+//@   ensures C03.table.3.newEventFromTrustedJSONFunc: roomVersionMeta["3"].(RoomVersionImpl).newEventFromTrustedJSONFunc == newEventFromTrustedJSONV2
 //@   ensures table.3.newEventFromTrustedJSONWithEventIDFunc: roomVersionMeta["3"].(RoomVersionImpl).newEventFromTrustedJSONWithEventIDFunc == newEventFromTrustedJSONWithEventIDV2
+//@   ensures C03.table.3.newEventFromTrustedJSONWithEventIDFunc: roomVersionMeta["3"].(RoomVersionImpl).newEventFromTrustedJSONWithEventIDFunc == newEventFromTrustedJSONWithEventIDV2
 //@   ensures table.4.present: "4" in roomVersionMeta
 //@   ensures table.4.ver: roomVersionMeta["4"].(RoomVersionImpl).ver == "4"
 //@   ensures table.4.stable: roomVersionMeta["4"].(RoomVersionImpl).stable == true
 //@   ensures table.4.stateResAlgorithm: roomVersionMeta["4"].(RoomVersionImpl).stateResAlgorithm == StateResV2
+//@   ensures C10.table.4.stateResAlgorithm: roomVersionMeta["4"].(RoomVersionImpl).stateResAlgorithm == StateResV2
 //@   ensures table.4.eventFormat: roomVersionMeta["4"].(RoomVersionImpl).eventFormat == EventFormatV2
+//@   ensures C03.table.4.eventFormat: roomVersionMeta["4"].(RoomVersionImpl).eventFormat == EventFormatV2
 //@   ensures table.4.eventIDFormat: roomVersionMeta["4"].(RoomVersionImpl).eventIDFormat == EventIDFormatV3
+//@   ensures C06.table.4.eventIDFormat: roomVersionMeta["4"].(RoomVersionImpl).eventIDFormat == EventIDFormatV3
+//@   ensures C03.table.4.eventIDFormat: roomVersionMeta["4"].(RoomVersionImpl).eventIDFormat == EventIDFormatV3
 //@   ensures table.4.redactionAlgorithm: roomVersionMeta["4"].(RoomVersionImpl).redactionAlgorithm == redactEventJSONV1
+//@   ensures C06.table.4.redactionAlgorithm: roomVersionMeta["4"].(RoomVersionImpl).redactionAlgorithm == redactEventJSONV1
+//@   ensures C05.table.4.redactionAlgorithm: roomVersionMeta["4"].(RoomVersionImpl).redactionAlgorithm == redactEventJSONV1
 //@   ensures table.4.signatureValidityCheckFunc: roomVersionMeta["4"].(RoomVersionImpl).signatureValidityCheckFunc == NoStrictValidityCheck
+//@   ensures C06.table.4.signatureValidityCheckFunc: roomVersionMeta["4"].(RoomVersionImpl).signatureValidityCheckFunc == NoStrictValidityCheck
 //@   ensures table.4.canonicalJSONCheck: roomVersionMeta["4"].(RoomVersionImpl).canonicalJSONCheck == noVerifyCanonicalJSON
+//@   ensures C01.table.4.canonicalJSONCheck: roomVersionMeta["4"].(RoomVersionImpl).canonicalJSONCheck == noVerifyCanonicalJSON
 //@   ensures table.4.checkPowerLevelEvent: roomVersionMeta["4"].(RoomVersionImpl).checkPowerLevelEvent == checkPowerLevelEventV1
+//@   ensures C07.table.4.checkPowerLevelEvent: roomVersionMeta["4"].(RoomVersionImpl).checkPowerLevelEvent == checkPowerLevelEventV1
+//@   ensures C08.table.4.checkPowerLevelEvent: roomVersionMeta["4"].(RoomVersionImpl).checkPowerLevelEvent == checkPowerLevelEventV1
 //@   ensures table.4.parsePowerLevelsFunc: roomVersionMeta["4"].(RoomVersionImpl).parsePowerLevelsFunc == parsePowerLevels
+//@   ensures C08.table.4.parsePowerLevelsFunc: roomVersionMeta["4"].(RoomVersionImpl).parsePowerLevelsFunc == parsePowerLevels
 //@   ensures table.4.domainlessRoomID: roomVersionMeta["4"].(RoomVersionImpl).domainlessRoomID == false
 //@   ensures table.4.privilegedCreators: roomVersionMeta["4"].(RoomVersionImpl).privilegedCreators == false
+//@   ensures C07.table.4.privilegedCreators: roomVersionMeta["4"].(RoomVersionImpl).privilegedCreators == false
 //@   ensures table.4.checkRestrictedJoin: roomVersionMeta["4"].(RoomVersionImpl).checkRestrictedJoin == noCheckRestrictedJoin
 //@   ensures table.4.restrictedJoinServernameFunc: roomVersionMeta["4"].(RoomVersionImpl).restrictedJoinServernameFunc == emptyAuthorisedViaServerName
+//@   ensures C06.table.4.restrictedJoinServernameFunc: roomVersionMeta["4"].(RoomVersionImpl).restrictedJoinServernameFunc == emptyAuthorisedViaServerName
 //@   ensures table.4.checkRestrictedJoinAllowedFunc: roomVersionMeta["4"].(RoomVersionImpl).checkRestrictedJoinAllowedFunc == disallowRestrictedJoins
+//@   ensures C07.table.4.checkRestrictedJoinAllowedFunc: roomVersionMeta["4"].(RoomVersionImpl).checkRestrictedJoinAllowedFunc == disallowRestrictedJoins
 //@   ensures table.4.checkKnockingAllowedFunc: roomVersionMeta["4"].(RoomVersionImpl).checkKnockingAllowedFunc == disallowKnocking
+//@   ensures C07.table.4.checkKnockingAllowedFunc: roomVersionMeta["4"].(RoomVersionImpl).checkKnockingAllowedFunc == disallowKnocking
 //@   ensures table.4.checkCreateEvent: roomVersionMeta["4"].(RoomVersionImpl).checkCreateEvent == checkCreateEventV1
+//@   ensures C07.table.4.checkCreateEvent: roomVersionMeta["4"].(RoomVersionImpl).checkCreateEvent == checkCreateEventV1
 //@   ensures table.4.newEventFromUntrustedJSONFunc: roomVersionMeta["4"].(RoomVersionImpl).newEventFromUntrustedJSONFunc == newEventFromUntrustedJSONV2
+//@   ensures C03.table.4.newEventFromUntrustedJSONFunc: roomVersionMeta["4"].(RoomVersionImpl).newEventFromUntrustedJSONFunc == newEventFromUntrustedJSONV2
+//@   ensures C04.table.4.newEventFromUntrustedJSONFunc: roomVersionMeta["4"].(RoomVersionImpl).newEventFromUntrustedJSONFunc == newEventFromUntrustedJSONV2
 //@   ensures table.4.newEventFromTrustedJSONFunc: roomVersionMeta["4"].(RoomVersionImpl).newEventFromTrustedJSONFunc == newEventFromTrustedJSONV2
+//@   ensures C03.table.4.newEventFromTrustedJSONFunc: roomVersionMeta["4"].(RoomVersionImpl).newEventFromTrustedJSONFunc == newEventFromTrustedJSONV2
 //@   ensures table.4.newEventFromTrustedJSONWithEventIDFunc: roomVersionMeta["4"].(RoomVersionImpl).newEventFromTrustedJSONWithEventIDFunc == newEventFromTrustedJSONWithEventIDV2
+//@   ensures C03.table.4.newEventFromTrustedJSONWithEventIDFunc: roomVersionMeta["4"].(RoomVersionImpl).newEventFromTrustedJSONWithEventIDFunc == newEventFromTrustedJSONWithEventIDV2
 //@   ensures table.5.present: "5" in roomVersionMeta
 //@   ensures table.5.ver: roomVersionMeta["5"].(RoomVersionImpl).ver == "5"
 //@   ensures table.5.stable: roomVersionMeta["5"].(RoomVersionImpl).stable == true
 //@   ensures table.5.stateResAlgorithm: roomVersionMeta["5"].(RoomVersionImpl).stateResAlgorithm == StateResV2
+//@   ensures C10.table.5.stateResAlgorithm: roomVersionMeta["5"].(RoomVersionImpl).stateResAlgorithm == StateResV2
 //@   ensures table.5.eventFormat: roomVersionMeta["5"].(RoomVersionImpl).eventFormat == EventFormatV2
+//@   ensures C03.table.5.eventFormat: roomVersionMeta["5"].(RoomVersionImpl).eventFormat == EventFormatV2
 //@   ensures table.5.eventIDFormat: roomVersionMeta["5"].(RoomVersionImpl).eventIDFormat == EventIDFormatV3
+//@   ensures C06.table.5.eventIDFormat: roomVersionMeta["5"].(RoomVersionImpl).eventIDFormat == EventIDFormatV3
+//@   ensures C03.table.5.eventIDFormat: roomVersionMeta["5"].(RoomVersionImpl).eventIDFormat == EventIDFormatV3
 //@   ensures table.5.redactionAlgorithm: roomVersionMeta["5"].(RoomVersionImpl).redactionAlgorithm == redactEventJSONV1
+//@   ensures C06.table.5.redactionAlgorithm: roomVersionMeta["5"].(RoomVersionImpl).redactionAlgorithm == redactEventJSONV1
+//@   ensures C05.table.5.redactionAlgorithm: roomVersionMeta["5"].(RoomVersionImpl).redactionAlgorithm == redactEventJSONV1
 //@   ensures table.5.signatureValidityCheckFunc: roomVersionMeta["5"].(RoomVersionImpl).signatureValidityCheckFunc == StrictValiditySignatureCheck
+//@   ensures C06.table.5.signatureValidityCheckFunc: roomVersionMeta["5"].(RoomVersionImpl).signatureValidityCheckFunc == StrictValiditySignatureCheck
 //@   ensures table.5.canonicalJSONCheck: roomVersionMeta["5"].(RoomVersionImpl).canonicalJSONCheck == noVerifyCanonicalJSON
+//@   ensures C01.table.5.canonicalJSONCheck: roomVersionMeta["5"].(RoomVersionImpl).canonicalJSONCheck == noVerifyCanonicalJSON
 //@   ensures table.5.checkPowerLevelEvent: roomVersionMeta["5"].(RoomVersionImpl).checkPowerLevelEvent == checkPowerLevelEventV1
+//@   ensures C07.table.5.checkPowerLevelEvent: roomVersionMeta["5"].(RoomVersionImpl).checkPowerLevelEvent == checkPowerLevelEventV1
+//@   ensures C08.table.5.checkPowerLevelEvent: roomVersionMeta["5"].(RoomVersionImpl).checkPowerLevelEvent == checkPowerLevelEventV1
 //@   ensures table.5.parsePowerLevelsFunc: roomVersionMeta["5"].(RoomVersionImpl).parsePowerLevelsFunc == parsePowerLevels
+//@   ensures C08.table.5.parsePowerLevelsFunc: roomVersionMeta["5"].(RoomVersionImpl).parsePowerLevelsFunc == parsePowerLevels
 //@   ensures table.5.domainlessRoomID: roomVersionMeta["5"].(RoomVersionImpl).domainlessRoomID == false
 //@   ensures table.5.privilegedCreators: roomVersionMeta["5"].(RoomVersionImpl).privilegedCreators == false
+//@   ensures C07.table.5.privilegedCreators: roomVersionMeta["5"].(RoomVersionImpl).privilegedCreators == false
 //@   ensures table.5.checkRestrictedJoin: roomVersionMeta["5"].(RoomVersionImpl).checkRestrictedJoin == noCheckRestrictedJoin
 //@   ensures table.5.restrictedJoinServernameFunc: roomVersionMeta["5"].(RoomVersionImpl).restrictedJoinServernameFunc == emptyAuthorisedViaServerName
+//@   ensures C06.table.5.restrictedJoinServernameFunc: roomVersionMeta["5"].(RoomVersionImpl).restrictedJoinServernameFunc == emptyAuthorisedViaServerName
 //@   ensures table.5.checkRestrictedJoinAllowedFunc: roomVersionMeta["5"].(RoomVersionImpl).checkRestrictedJoinAllowedFunc == disallowRestrictedJoins
+//@   ensures C07.table.5.checkRestrictedJoinAllowedFunc: roomVersionMeta["5"].(RoomVersionImpl).checkRestrictedJoinAllowedFunc == disallowRestrictedJoins
 //@   ensures table.5.checkKnockingAllowedFunc: roomVersionMeta["5"].(RoomVersionImpl).checkKnockingAllowedFunc == disallowKnocking
+//@   ensures C07.table.5.checkKnockingAllowedFunc: roomVersionMeta["5"].(RoomVersionImpl).checkKnockingAllowedFunc == disallowKnocking
 //@   ensures table.5.checkCreateEvent: roomVersionMeta["5"].(RoomVersionImpl).checkCreateEvent == checkCreateEventV1
+//@   ensures C07.table.5.checkCreateEvent: roomVersionMeta["5"].(RoomVersionImpl).checkCreateEvent == checkCreateEventV1
 //@   ensures table.5.newEventFromUntrustedJSONFunc: roomVersionMeta["5"].(RoomVersionImpl).newEventFromUntrustedJSONFunc == newEventFromUntrustedJSONV2
+//@   ensures C03.table.5.newEventFromUntrustedJSONFunc: roomVersionMeta["5"].(RoomVersionImpl).newEventFromUntrustedJSONFunc == newEventFromUntrustedJSONV2
+//@   ensures C04.table.5.newEventFromUntrustedJSONFunc: roomVersionMeta["5"].(RoomVersionImpl).newEventFromUntrustedJSONFunc == newEventFromUntrustedJSONV2
 //@   ensures table.5.newEventFromTrustedJSONFunc: roomVersionMeta["5"].(RoomVersionImpl).newEventFromTrustedJSONFunc == newEventFromTrustedJSONV2
+//@   ensures C03.table.5.newEventFromTrustedJSONFunc: roomVersionMeta["5"].(RoomVersionImpl).newEventFromTrustedJSONFunc == newEventFromTrustedJSONV2
 //@   ensures table.5.newEventFromTrustedJSONWithEventIDFunc: roomVersionMeta["5"].(RoomVersionImpl).newEventFromTrustedJSONWithEventIDFunc == newEventFromTrustedJSONWithEventIDV2
+//@   ensures C03.table.5.newEventFromTrustedJSONWithEventIDFunc: roomVersionMeta["5"].(RoomVersionImpl).newEventFromTrustedJSONWithEventIDFunc == newEventFromTrustedJSONWithEventIDV2
 //@   ensures table.6.present: "6" in roomVersionMeta
 //@   ensures table.6.ver: roomVersionMeta["6"].(RoomVersionImpl).ver == "6"
 //@   ensures table.6.stable: roomVersionMeta["6"].(RoomVersionImpl).stable == true
 //@   ensures table.6.stateResAlgorithm: roomVersionMeta["6"].(RoomVersionImpl).stateResAlgorithm == StateResV2
+//@   ensures C10.table.6.stateResAlgorithm: roomVersionMeta["6"].(RoomVersionImpl).stateResAlgorithm == StateResV2
 //@   ensures table.6.eventFormat: roomVersionMeta["6"].(RoomVersionImpl).eventFormat == EventFormatV2
+//@   ensures C03.table.6.eventFormat: roomVersionMeta["6"].(RoomVersionImpl).eventFormat == EventFormatV2
 //@   ensures table.6.eventIDFormat: roomVersionMeta["6"].(RoomVersionImpl).eventIDFormat == EventIDFormatV3
+//@   ensures C06.table.6.eventIDFormat: roomVersionMeta["6"].(RoomVersionImpl).eventIDFormat == EventIDFormatV3
+//@   ensures C03.table.6.eventIDFormat: roomVersionMeta["6"].(RoomVersionImpl).eventIDFormat == EventIDFormatV3
 //@   ensures table.6.redactionAlgorithm: roomVersionMeta["6"].(RoomVersionImpl).redactionAlgorithm == redactEventJSONV2
+//@   ensures C06.table.6.redactionAlgorithm: roomVersionMeta["6"].(RoomVersionImpl).redactionAlgorithm == redactEventJSONV2
+//@   ensures C05.table.6.redactionAlgorithm: roomVersionMeta["6"].(RoomVersionImpl).redactionAlgorithm == redactEventJSONV2
 //@   ensures table.6.signatureValidityCheckFunc: roomVersionMeta["6"].(RoomVersionImpl).signatureValidityCheckFunc == StrictValiditySignatureCheck
+//@   ensures C06.table.6.signatureValidityCheckFunc: roomVersionMeta["6"].(RoomVersionImpl).signatureValidityCheckFunc == StrictValiditySignatureCheck
 //@   ensures table.6.canonicalJSONCheck: roomVersionMeta["6"].(RoomVersionImpl).canonicalJSONCheck == verifyEnforcedCanonicalJSON
+//@   ensures C01.table.6.canonicalJSONCheck: roomVersionMeta["6"].(RoomVersionImpl).canonicalJSONCheck == verifyEnforcedCanonicalJSON
 //@   ensures table.6.checkPowerLevelEvent: roomVersionMeta["6"].(RoomVersionImpl).checkPowerLevelEvent == checkPowerLevelEventV2
+//@   ensures C07.table.6.checkPowerLevelEvent: roomVersionMeta["6"].(RoomVersionImpl).checkPowerLevelEvent == checkPowerLevelEventV2
+//@   ensures C08.table.6.checkPowerLevelEvent: roomVersionMeta["6"].(RoomVersionImpl).checkPowerLevelEvent == checkPowerLevelEventV2
 //@   ensures table.6.parsePowerLevelsFunc: roomVersionMeta["6"].(RoomVersionImpl).parsePowerLevelsFunc == parsePowerLevels
+//@   ensures C08.table.6.parsePowerLevelsFunc: roomVersionMeta["6"].(RoomVersionImpl).parsePowerLevelsFunc == parsePowerLevels
 //@   ensures table.6.domainlessRoomID: roomVersionMeta["6"].(RoomVersionImpl).domainlessRoomID == false
 //@   ensures table.6.privilegedCreators: roomVersionMeta["6"].(RoomVersionImpl).privilegedCreators == false
+//@   ensures C07.table.6.privilegedCreators: roomVersionMeta["6"].(RoomVersionImpl).privilegedCreators == false
 //@   ensures table.6.checkRestrictedJoin: roomVersionMeta["6"].(RoomVersionImpl).checkRestrictedJoin == noCheckRestrictedJoin
 //@   ensures table.6.restrictedJoinServernameFunc: roomVersionMeta["6"].(RoomVersionImpl).restrictedJoinServernameFunc == emptyAuthorisedViaServerName
+//@   ensures C06.table.6.restrictedJoinServernameFunc: roomVersionMeta["6"].(RoomVersionImpl).restrictedJoinServernameFunc == emptyAuthorisedViaServerName
 //@   ensures table.6.checkRestrictedJoinAllowedFunc: roomVersionMeta["6"].(RoomVersionImpl).checkRestrictedJoinAllowedFunc == disallowRestrictedJoins
+//@   ensures C07.table.6.checkRestrictedJoinAllowedFunc: roomVersionMeta["6"].(RoomVersionImpl).checkRestrictedJoinAllowedFunc == disallowRestrictedJoins
 //@   ensures table.6.checkKnockingAllowedFunc: roomVersionMeta["6"].(RoomVersionImpl).checkKnockingAllowedFunc == disallowKnocking
+//@   ensures C07.table.6.checkKnockingAllowedFunc: roomVersionMeta["6"].(RoomVersionImpl).checkKnockingAllowedFunc == disallowKnocking
 //@   ensures table.6.checkCreateEvent: roomVersionMeta["6"].(RoomVersionImpl).checkCreateEvent == checkCreateEventV1
+//@   ensures C07.table.6.checkCreateEvent: roomVersionMeta["6"].(RoomVersionImpl).checkCreateEvent == checkCreateEventV1
 //@   ensures table.6.newEventFromUntrustedJSONFunc: roomVersionMeta["6"].(RoomVersionImpl).newEventFromUntrustedJSONFunc == newEventFromUntrustedJSONV2
+//@   ensures C03.table.6.newEventFromUntrustedJSONFunc: roomVersionMeta["6"].(RoomVersionImpl).newEventFromUntrustedJSONFunc == newEventFromUntrustedJSONV2
+//@   ensures C04.table.6.newEventFromUntrustedJSONFunc: roomVersionMeta["6"].(RoomVersionImpl).newEventFromUntrustedJSONFunc == newEventFromUntrustedJSONV2
 //@   ensures table.6.newEventFromTrustedJSONFunc: roomVersionMeta["6"].(RoomVersionImpl).newEventFromTrustedJSONFunc == newEventFromTrustedJSONV2
+//@   ensures C03.table.6.newEventFromTrustedJSONFunc: roomVersionMeta["6"].(RoomVersionImpl).newEventFromTrustedJSONFunc == newEventFromTrustedJSONV2
 //@   ensures table.6.newEventFromTrustedJSONWithEventIDFunc: roomVersionMeta["6"].(RoomVersionImpl).newEventFromTrustedJSONWithEventIDFunc == newEventFromTrustedJSONWithEventIDV2
+//@   ensures C03.table.6.newEventFromTrustedJSONWithEventIDFunc: roomVersionMeta["6"].(RoomVersionImpl).newEventFromTrustedJSONWithEventIDFunc == newEventFromTrustedJSONWithEventIDV2
 //@   ensures table.7.present: "7" in roomVersionMeta
 //@   ensures table.7.ver: roomVersionMeta["7"].(RoomVersionImpl).ver == "7"
 //@   ensures table.7.stable: roomVersionMeta["7"].(RoomVersionImpl).stable == true
 //@   ensures table.7.stateResAlgorithm: roomVersionMeta["7"].(RoomVersionImpl).stateResAlgorithm == StateResV2
+//@   ensures C10.table.7.stateResAlgorithm: roomVersionMeta["7"].(RoomVersionImpl).stateResAlgorithm == StateResV2
 //@   ensures table.7.eventFormat: roomVersionMeta["7"].(RoomVersionImpl).eventFormat == EventFormatV2
+//@   ensures C03.table.7.eventFormat: roomVersionMeta["7"].(RoomVersionImpl).eventFormat == EventFormatV2
 //@   ensures table.7.eventIDFormat: roomVersionMeta["7"].(RoomVersionImpl).eventIDFormat == EventIDFormatV3
+//@   ensures C06.table.7.eventIDFormat: roomVersionMeta["7"].(RoomVersionImpl).eventIDFormat == EventIDFormatV3
+//@   ensures C03.table.7.eventIDFormat: roomVersionMeta["7"].(RoomVersionImpl).eventIDFormat == EventIDFormatV3
 //@   ensures table.7.redactionAlgorithm: roomVersionMeta["7"].(RoomVersionImpl).redactionAlgorithm == redactEventJSONV2
+//@   ensures C06.table.7.redactionAlgorithm: roomVersionMeta["7"].(RoomVersionImpl).redactionAlgorithm == redactEventJSONV2
+//@   ensures C05.table.7.redactionAlgorithm: roomVersionMeta["7"].(RoomVersionImpl).redactionAlgorithm == redactEventJSONV2
 //@   ensures table.7.signatureValidityCheckFunc: roomVersionMeta["7"].(RoomVersionImpl).signatureValidityCheckFunc == StrictValiditySignatureCheck
+//@   ensures C06.table.7.signatureValidityCheckFunc: roomVersionMeta["7"].(RoomVersionImpl).signatureValidityCheckFunc == StrictValiditySignatureCheck
 //@   ensures table.7.canonicalJSONCheck: roomVersionMeta["7"].(RoomVersionImpl).canonicalJSONCheck == verifyEnforcedCanonicalJSON
+//@   ensures C01.table.7.canonicalJSONCheck: roomVersionMeta["7"].(RoomVersionImpl).canonicalJSONCheck == verifyEnforcedCanonicalJSON
 //@   ensures table.7.checkPowerLevelEvent: roomVersionMeta["7"].(RoomVersionImpl).checkPowerLevelEvent == checkPowerLevelEventV2
+//@   ensures C07.table.7.checkPowerLevelEvent: roomVersionMeta["7"].(RoomVersionImpl).checkPowerLevelEvent == checkPowerLevelEventV2
+//@   ensures C08.table.7.checkPowerLevelEvent: roomVersionMeta["7"].(RoomVersionImpl).checkPowerLevelEvent == checkPowerLevelEventV2
 //@   ensures table.7.parsePowerLevelsFunc: roomVersionMeta["7"].(RoomVersionImpl).parsePowerLevelsFunc == parsePowerLevels
+//@   ensures C08.table.7.parsePowerLevelsFunc: roomVersionMeta["7"].(RoomVersionImpl).parsePowerLevelsFunc == parsePowerLevels
 //@   ensures table.7.domainlessRoomID: roomVersionMeta["7"].(RoomVersionImpl).domainlessRoomID == false
 //@   ensures table.7.privilegedCreators: roomVersionMeta["7"].(RoomVersionImpl).privilegedCreators == false
+//@   ensures C07.table.7.privilegedCreators: roomVersionMeta["7"].(RoomVersionImpl).privilegedCreators == false
 //@   ensures table.7.checkRestrictedJoin: roomVersionMeta["7"].(RoomVersionImpl).checkRestrictedJoin == noCheckRestrictedJoin
 //@   ensures table.7.restrictedJoinServernameFunc: roomVersionMeta["7"].(RoomVersionImpl).restrictedJoinServernameFunc == emptyAuthorisedViaServerName
+//@   ensures C06.table.7.restrictedJoinServernameFunc: roomVersionMeta["7"].(RoomVersionImpl).restrictedJoinServernameFunc == emptyAuthorisedViaServerName
 //@   ensures table.7.checkRestrictedJoinAllowedFunc: roomVersionMeta["7"].(RoomVersionImpl).checkRestrictedJoinAllowedFunc == disallowRestrictedJoins
+//@   ensures C07.table.7.checkRestrictedJoinAllowedFunc: roomVersionMeta["7"].(RoomVersionImpl).checkRestrictedJoinAllowedFunc == disallowRestrictedJoins
 //@   ensures table.7.checkKnockingAllowedFunc: roomVersionMeta["7"].(RoomVersionImpl).checkKnockingAllowedFunc == checkKnocking
+//@   ensures C07.table.7.checkKnockingAllowedFunc: roomVersionMeta["7"].(RoomVersionImpl).checkKnockingAllowedFunc == checkKnocking
 //@   ensures table.7.checkCreateEvent: roomVersionMeta["7"].(RoomVersionImpl).checkCreateEvent == checkCreateEventV1
+//@   ensures C07.table.7.checkCreateEvent: roomVersionMeta["7"].(RoomVersionImpl).checkCreateEvent == checkCreateEventV1
 //@   ensures table.7.newEventFromUntrustedJSONFunc: roomVersionMeta["7"].(RoomVersionImpl).newEventFromUntrustedJSONFunc == newEventFromUntrustedJSONV2
+//@   ensures C03.table.7.newEventFromUntrustedJSONFunc: roomVersionMeta["7"].(RoomVersionImpl).newEventFromUntrustedJSONFunc == newEventFromUntrustedJSONV2
+//@   ensures C04.table.7.newEventFromUntrustedJSONFunc: roomVersionMeta["7"].(RoomVersionImpl).newEventFromUntrustedJSONFunc == newEventFromUntrustedJSONV2
 //@   ensures table.7.newEventFromTrustedJSONFunc: roomVersionMeta["7"].(RoomVersionImpl).newEventFromTrustedJSONFunc == newEventFromTrustedJSONV2
+//@   ensures C03.table.7.newEventFromTrustedJSONFunc: roomVersionMeta["7"].(RoomVersionImpl).newEventFromTrustedJSONFunc == newEventFromTrustedJSONV2
 //@   ensures table.7.newEventFromTrustedJSONWithEventIDFunc: roomVersionMeta["7"].(RoomVersionImpl).newEventFromTrustedJSONWithEventIDFunc == newEventFromTrustedJSONWithEventIDV2
+//@   ensures C03.table.7.newEventFromTrustedJSONWithEventIDFunc: roomVersionMeta["7"].(RoomVersionImpl).newEventFromTrustedJSONWithEventIDFunc == newEventFromTrustedJSONWithEventIDV2
 //@   ensures table.8.present: "8" in roomVersionMeta
 //@   ensures table.8.ver: roomVersionMeta["8"].(RoomVersionImpl).ver == "8"
 //@   ensures table.8.stable: roomVersionMeta["8"].(RoomVersionImpl).stable == true
 //@   ensures table.8.stateResAlgorithm: roomVersionMeta["8"].(RoomVersionImpl).stateResAlgorithm == StateResV2
+//@   ensures C10.table.8.stateResAlgorithm: roomVersionMeta["8"].(RoomVersionImpl).stateResAlgorithm == StateResV2
 //@   ensures table.8.eventFormat: roomVersionMeta["8"].(RoomVersionImpl).eventFormat == EventFormatV2
+//@   ensures C03.table.8.eventFormat: roomVersionMeta["8"].(RoomVersionImpl).eventFormat == EventFormatV2
 //@   ensures table.8.eventIDFormat: roomVersionMeta["8"].(RoomVersionImpl).eventIDFormat == EventIDFormatV3
+//@   ensures C06.table.8.eventIDFormat: roomVersionMeta["8"].(RoomVersionImpl).eventIDFormat == EventIDFormatV3
+//@   ensures C03.table.8.eventIDFormat: roomVersionMeta["8"].(RoomVersionImpl).eventIDFormat == EventIDFormatV3
 //@   ensures table.8.redactionAlgorithm: roomVersionMeta["8"].(RoomVersionImpl).redactionAlgorithm == redactEventJSONV3
+//@   ensures C06.table.8.redactionAlgorithm: roomVersionMeta["8"].(RoomVersionImpl).redactionAlgorithm == redactEventJSONV3
+//@   ensures C05.table.8.redactionAlgorithm: roomVersionMeta["8"].(RoomVersionImpl).redactionAlgorithm == redactEventJSONV3
 //@   ensures table.8.signatureValidityCheckFunc: roomVersionMeta["8"].(RoomVersionImpl).signatureValidityCheckFunc == StrictValiditySignatureCheck
+//@   ensures C06.table.8.signatureValidityCheckFunc: roomVersionMeta["8"].(RoomVersionImpl).signatureValidityCheckFunc == StrictValiditySignatureCheck
 //@   ensures table.8.canonicalJSONCheck: roomVersionMeta["8"].(RoomVersionImpl).canonicalJSONCheck == verifyEnforcedCanonicalJSON
+//@   ensures C01.table.8.canonicalJSONCheck: roomVersionMeta["8"].(RoomVersionImpl).canonicalJSONCheck == verifyEnforcedCanonicalJSON
 //@   ensures table.8.checkPowerLevelEvent: roomVersionMeta["8"].(RoomVersionImpl).checkPowerLevelEvent == checkPowerLevelEventV2
+//@   ensures C07.table.8.checkPowerLevelEvent: roomVersionMeta["8"].(RoomVersionImpl).checkPowerLevelEvent == checkPowerLevelEventV2
+//@   ensures C08.table.8.checkPowerLevelEvent: roomVersionMeta["8"].(RoomVersionImpl).checkPowerLevelEvent == checkPowerLevelEventV2
 //@   ensures table.8.parsePowerLevelsFunc: roomVersionMeta["8"].(RoomVersionImpl).parsePowerLevelsFunc == parsePowerLevels
+//@   ensures C08.table.8.parsePowerLevelsFunc: roomVersionMeta["8"].(RoomVersionImpl).parsePowerLevelsFunc == parsePowerLevels
 //@   ensures table.8.domainlessRoomID: roomVersionMeta["8"].(RoomVersionImpl).domainlessRoomID == false
 //@   ensures table.8.privilegedCreators: roomVersionMeta["8"].(RoomVersionImpl).privilegedCreators == false
+//@   ensures C07.table.8.privilegedCreators: roomVersionMeta["8"].(RoomVersionImpl).privilegedCreators == false
 //@   ensures table.8.checkRestrictedJoin: roomVersionMeta["8"].(RoomVersionImpl).checkRestrictedJoin == checkRestrictedJoin
 //@   ensures table.8.restrictedJoinServernameFunc: roomVersionMeta["8"].(RoomVersionImpl).restrictedJoinServernameFunc == extractAuthorisedViaServerName
+//@   ensures C06.table.8.restrictedJoinServernameFunc: roomVersionMeta["8"].(RoomVersionImpl).restrictedJoinServernameFunc == extractAuthorisedViaServerName
 //@   ensures table.8.checkRestrictedJoinAllowedFunc: roomVersionMeta["8"].(RoomVersionImpl).checkRestrictedJoinAllowedFunc == allowRestrictedJoins
+//@   ensures C07.table.8.checkRestrictedJoinAllowedFunc: roomVersionMeta["8"].(RoomVersionImpl).checkRestrictedJoinAllowedFunc == allowRestrictedJoins
 //@   ensures table.8.checkKnockingAllowedFunc: roomVersionMeta["8"].(RoomVersionImpl).checkKnockingAllowedFunc == checkKnocking
+//@   ensures C07.table.8.checkKnockingAllowedFunc: roomVersionMeta["8"].(RoomVersionImpl).checkKnockingAllowedFunc == checkKnocking
 //@   ensures table.8.checkCreateEvent: roomVersionMeta["8"].(RoomVersionImpl).checkCreateEvent == checkCreateEventV1
+//@   ensures C07.table.8.checkCreateEvent: roomVersionMeta["8"].(RoomVersionImpl).checkCreateEvent == checkCreateEventV1
 //@   ensures table.8.newEventFromUntrustedJSONFunc: roomVersionMeta["8"].(RoomVersionImpl).newEventFromUntrustedJSONFunc == newEventFromUntrustedJSONV2
+//@   ensures C03.table.8.newEventFromUntrustedJSONFunc: roomVersionMeta["8"].(RoomVersionImpl).newEventFromUntrustedJSONFunc == newEventFromUntrustedJSONV2
+//@   ensures C04.table.8.newEventFromUntrustedJSONFunc: roomVersionMeta["8"].(RoomVersionImpl).newEventFromUntrustedJSONFunc == newEventFromUntrustedJSONV2
 //@   ensures table.8.newEventFromTrustedJSONFunc: roomVersionMeta["8"].(RoomVersionImpl).newEventFromTrustedJSONFunc == newEventFromTrustedJSONV2
+//@   ensures C03.table.8.newEventFromTrustedJSONFunc: roomVersionMeta["8"].(RoomVersionImpl).newEventFromTrustedJSONFunc == newEventFromTrustedJSONV2
 //@   ensures table.8.newEventFromTrustedJSONWithEventIDFunc: roomVersionMeta["8"].(RoomVersionImpl).newEventFromTrustedJSONWithEventIDFunc == newEventFromTrustedJSONWithEventIDV2
+//@   ensures C03.table.8.newEventFromTrustedJSONWithEventIDFunc: roomVersionMeta["8"].(RoomVersionImpl).newEventFromTrustedJSONWithEventIDFunc == newEventFromTrustedJSONWithEventIDV2
 //@   ensures table.9.present: "9" in roomVersionMeta
 //@   ensures table.9.ver: roomVersionMeta["9"].(RoomVersionImpl).ver == "9"
 //@   ensures table.9.stable: roomVersionMeta["9"].(RoomVersionImpl).stable == true
 //@   ensures table.9.stateResAlgorithm: roomVersionMeta["9"].(RoomVersionImpl).stateResAlgorithm == StateResV2
+//@   ensures C10.table.9.stateResAlgorithm: roomVersionMeta["9"].(RoomVersionImpl).stateResAlgorithm == StateResV2
 //@   ensures table.9.eventFormat: roomVersionMeta["9"].(RoomVersionImpl).eventFormat == EventFormatV2
+//@   ensures C03.table.9.eventFormat: roomVersionMeta["9"].(RoomVersionImpl).eventFormat == EventFormatV2
 //@   ensures table.9.eventIDFormat: roomVersionMeta["9"].(RoomVersionImpl).eventIDFormat == EventIDFormatV3
+//@   ensures C06.table.9.eventIDFormat: roomVersionMeta["9"].(RoomVersionImpl).eventIDFormat == EventIDFormatV3
+//@   ensures C03.table.9.eventIDFormat: roomVersionMeta["9"].(RoomVersionImpl).eventIDFormat == EventIDFormatV3
 //@   ensures table.9.redactionAlgorithm: roomVersionMeta["9"].(RoomVersionImpl).redactionAlgorithm == redactEventJSONV4
+//@   ensures C06.table.9.redactionAlgorithm: roomVersionMeta["9"].(RoomVersionImpl).redactionAlgorithm == redactEventJSONV4
+//@   ensures C05.table.9.redactionAlgorithm: roomVersionMeta["9"].(RoomVersionImpl).redactionAlgorithm == redactEventJSONV4
 //@   ensures table.9.signatureValidityCheckFunc: roomVersionMeta["9"].(RoomVersionImpl).signatureValidityCheckFunc == StrictValiditySignatureCheck
+//@   ensures C06.table.9.signatureValidityCheckFunc: roomVersionMeta["9"].(RoomVersionImpl).signatureValidityCheckFunc == StrictValiditySignatureCheck
 //@   ensures table.9.canonicalJSONCheck: roomVersionMeta["9"].(RoomVersionImpl).canonicalJSONCheck == verifyEnforcedCanonicalJSON
+//@   ensures C01.table.9.canonicalJSONCheck: roomVersionMeta["9"].(RoomVersionImpl).canonicalJSONCheck == verifyEnforcedCanonicalJSON
 //@   ensures table.9.checkPowerLevelEvent: roomVersionMeta["9"].(RoomVersionImpl).checkPowerLevelEvent == checkPowerLevelEventV2
+//@   ensures C07.table.9.checkPowerLevelEvent: roomVersionMeta["9"].(RoomVersionImpl).checkPowerLevelEvent == checkPowerLevelEventV2
+//@   ensures C08.table.9.checkPowerLevelEvent: roomVersionMeta["9"].(RoomVersionImpl).checkPowerLevelEvent == checkPowerLevelEventV2
 //@   ensures table.9.parsePowerLevelsFunc: roomVersionMeta["9"].(RoomVersionImpl).parsePowerLevelsFunc == parsePowerLevels
+//@   ensures C08.table.9.parsePowerLevelsFunc: roomVersionMeta["9"].(RoomVersionImpl).parsePowerLevelsFunc == parsePowerLevels
 //@   ensures table.9.domainlessRoomID: roomVersionMeta["9"].(RoomVersionImpl).domainlessRoomID == false
 //@   ensures table.9.privilegedCreators: roomVersionMeta["9"].(RoomVersionImpl).privilegedCreators == false
+//@   ensures C07.table.9.privilegedCreators: roomVersionMeta["9"].(RoomVersionImpl).privilegedCreators == false
 //@   ensures table.9.checkRestrictedJoin: roomVersionMeta["9"].(RoomVersionImpl).checkRestrictedJoin == checkRestrictedJoin
 //@   ensures table.9.restrictedJoinServernameFunc: roomVersionMeta["9"].(RoomVersionImpl).restrictedJoinServernameFunc == extractAuthorisedViaServerName
+//@   ensures C06.table.9.restrictedJoinServernameFunc: roomVersionMeta["9"].(RoomVersionImpl).restrictedJoinServernameFunc == extractAuthorisedViaServerName
 //@   ensures table.9.checkRestrictedJoinAllowedFunc: roomVersionMeta["9"].(RoomVersionImpl).checkRestrictedJoinAllowedFunc == allowRestrictedJoins
+//@   ensures C07.table.9.checkRestrictedJoinAllowedFunc: roomVersionMeta["9"].(RoomVersionImpl).checkRestrictedJoinAllowedFunc == allowRestrictedJoins
 //@   ensures table.9.checkKnockingAllowedFunc: roomVersionMeta["9"].(RoomVersionImpl).checkKnockingAllowedFunc == checkKnocking
+//@   ensures C07.table.9.checkKnockingAllowedFunc: roomVersionMeta["9"].(RoomVersionImpl).checkKnockingAllowedFunc == checkKnocking
 //@   ensures table.9.checkCreateEvent: roomVersionMeta["9"].(RoomVersionImpl).checkCreateEvent == checkCreateEventV1
+//@   ensures C07.table.9.checkCreateEvent: roomVersionMeta["9"].(RoomVersionImpl).checkCreateEvent == checkCreateEventV1
 //@   ensures table.9.newEventFromUntrustedJSONFunc: roomVersionMeta["9"].(RoomVersionImpl).newEventFromUntrustedJSONFunc == newEventFromUntrustedJSONV2
+//@   ensures C03.table.9.newEventFromUntrustedJSONFunc: roomVersionMeta["9"].(RoomVersionImpl).newEventFromUntrustedJSONFunc == newEventFromUntrustedJSONV2
+//@   ensures C04.table.9.newEventFromUntrustedJSONFunc: roomVersionMeta["9"].(RoomVersionImpl).newEventFromUntrustedJSONFunc == newEventFromUntrustedJSONV2
 //@   ensures table.9.newEventFromTrustedJSONFunc: roomVersionMeta["9"].(RoomVersionImpl).newEventFromTrustedJSONFunc == newEventFromTrustedJSONV2
+//@   ensures C03.table.9.newEventFromTrustedJSONFunc: roomVersionMeta["9"].(RoomVersionImpl).newEventFromTrustedJSONFunc == newEventFromTrustedJSONV2
 //@   ensures table.9.newEventFromTrustedJSONWithEventIDFunc: roomVersionMeta["9"].(RoomVersionImpl).newEventFromTrustedJSONWithEventIDFunc == newEventFromTrustedJSONWithEventIDV2
+//@   ensures C03.table.9.newEventFromTrustedJSONWithEventIDFunc: roomVersionMeta["9"].(RoomVersionImpl).newEventFromTrustedJSONWithEventIDFunc == newEventFromTrustedJSONWithEventIDV2
 //@   ensures table.10.present: "10" in roomVersionMeta
 //@   ensures table.10.ver: roomVersionMeta["10"].(RoomVersionImpl).ver == "10"
 //@   ensures table.10.stable: roomVersionMeta["10"].(RoomVersionImpl).stable == true
 //@   ensures table.10.stateResAlgorithm: roomVersionMeta["10"].(RoomVersionImpl).stateResAlgorithm == StateResV2
+//@   ensures C10.table.10.stateResAlgorithm: roomVersionMeta["10"].(RoomVersionImpl).stateResAlgorithm == StateResV2
 //@   ensures table.10.eventFormat: roomVersionMeta["10"].(RoomVersionImpl).eventFormat == EventFormatV2
+//@   ensures C03.table.10.eventFormat: roomVersionMeta["10"].(RoomVersionImpl).eventFormat == EventFormatV2
 //@   ensures table.10.eventIDFormat: roomVersionMeta["10"].(RoomVersionImpl).eventIDFormat == EventIDFormatV3
+//@   ensures C06.table.10.eventIDFormat: roomVersionMeta["10"].(RoomVersionImpl).eventIDFormat == EventIDFormatV3
+//@   ensures C03.table.10.eventIDFormat: roomVersionMeta["10"].(RoomVersionImpl).eventIDFormat == EventIDFormatV3
 //@   ensures table.10.redactionAlgorithm: roomVersionMeta["10"].(RoomVersionImpl).redactionAlgorithm == redactEventJSONV4
+//@   ensures C06.table.10.redactionAlgorithm: roomVersionMeta["10"].(RoomVersionImpl).redactionAlgorithm == redactEventJSONV4
+//@   ensures C05.table.10.redactionAlgorithm: roomVersionMeta["10"].(RoomVersionImpl).redactionAlgorithm == redactEventJSONV4
 //@   ensures table.10.signatureValidityCheckFunc: roomVersionMeta["10"].(RoomVersionImpl).signatureValidityCheckFunc == StrictValiditySignatureCheck
+//@   ensures C06.table.10.signatureValidityCheckFunc: roomVersionMeta["10"].(RoomVersionImpl).signatureValidityCheckFunc == StrictValiditySignatureCheck
 //@   ensures table.10.canonicalJSONCheck: roomVersionMeta["10"].(RoomVersionImpl).canonicalJSONCheck == verifyEnforcedCanonicalJSON
+//@   ensures C01.table.10.canonicalJSONCheck: roomVersionMeta["10"].(RoomVersionImpl).canonicalJSONCheck == verifyEnforcedCanonicalJSON
 //@   ensures table.10.checkPowerLevelEvent: roomVersionMeta["10"].(RoomVersionImpl).checkPowerLevelEvent == checkPowerLevelEventV2
+//@   ensures C07.table.10.checkPowerLevelEvent: roomVersionMeta["10"].(RoomVersionImpl).checkPowerLevelEvent == checkPowerLevelEventV2
+//@   ensures C08.table.10.checkPowerLevelEvent: roomVersionMeta["10"].(RoomVersionImpl).checkPowerLevelEvent == checkPowerLevelEventV2
 //@   ensures table.10.parsePowerLevelsFunc: roomVersionMeta["10"].(RoomVersionImpl).parsePowerLevelsFunc == parseIntegerPowerLevels
+//@   ensures C08.table.10.parsePowerLevelsFunc: roomVersionMeta["10"].(RoomVersionImpl).parsePowerLevelsFunc == parseIntegerPowerLevels
 //@   ensures table.10.domainlessRoomID: roomVersionMeta["10"].(RoomVersionImpl).domainlessRoomID == false
 //@   ensures table.10.privilegedCreators: roomVersionMeta["10"].(RoomVersionImpl).privilegedCreators == false
+//@   ensures C07.table.10.privilegedCreators: roomVersionMeta["10"].(RoomVersionImpl).privilegedCreators == false
 //@   ensures table.10.checkRestrictedJoin: roomVersionMeta["10"].(RoomVersionImpl).checkRestrictedJoin == checkRestrictedJoin
 //@   ensures table.10.restrictedJoinServernameFunc: roomVersionMeta["10"].(RoomVersionImpl).restrictedJoinServernameFunc == extractAuthorisedViaServerName
+//@   ensures C06.table.10.restrictedJoinServernameFunc: roomVersionMeta["10"].(RoomVersionImpl).restrictedJoinServernameFunc == extractAuthorisedViaServerName
 //@   ensures table.10.checkRestrictedJoinAllowedFunc: roomVersionMeta["10"].(RoomVersionImpl).checkRestrictedJoinAllowedFunc == allowRestrictedJoins
+//@   ensures C07.table.10.checkRestrictedJoinAllowedFunc: roomVersionMeta["10"].(RoomVersionImpl).checkRestrictedJoinAllowedFunc == allowRestrictedJoins
 //@   ensures table.10.checkKnockingAllowedFunc: roomVersionMeta["10"].(RoomVersionImpl).checkKnockingAllowedFunc == checkKnocking
+//@   ensures C07.table.10.checkKnockingAllowedFunc: roomVersionMeta["10"].(RoomVersionImpl).checkKnockingAllowedFunc == checkKnocking
 //@   ensures table.10.checkCreateEvent: roomVersionMeta["10"].(RoomVersionImpl).checkCreateEvent == checkCreateEventV1
+//@   ensures C07.table.10.checkCreateEvent: roomVersionMeta["10"].(RoomVersionImpl).checkCreateEvent == checkCreateEventV1
 //@   ensures table.10.newEventFromUntrustedJSONFunc: roomVersionMeta["10"].(RoomVersionImpl).newEventFromUntrustedJSONFunc == newEventFromUntrustedJSONV2
+//@   ensures C03.table.10.newEventFromUntrustedJSONFunc: roomVersionMeta["10"].(RoomVersionImpl).newEventFromUntrustedJSONFunc == newEventFromUntrustedJSONV2
+//@   ensures C04.table.10.newEventFromUntrustedJSONFunc: roomVersionMeta["10"].(RoomVersionImpl).newEventFromUntrustedJSONFunc == newEventFromUntrustedJSONV2
 //@   ensures table.10.newEventFromTrustedJSONFunc: roomVersionMeta["10"].(RoomVersionImpl).newEventFromTrustedJSONFunc == newEventFromTrustedJSONV2
+//@   ensures C03.table.10.newEventFromTrustedJSONFunc: roomVersionMeta["10"].(RoomVersionImpl).newEventFromTrustedJSONFunc == newEventFromTrustedJSONV2
 //@   ensures table.10.newEventFromTrustedJSONWithEventIDFunc: roomVersionMeta["10"].(RoomVersionImpl).newEventFromTrustedJSONWithEventIDFunc == newEventFromTrustedJSONWithEventIDV2
+//@   ensures C03.table.10.newEventFromTrustedJSONWithEventIDFunc: roomVersionMeta["10"].(RoomVersionImpl).newEventFromTrustedJSONWithEventIDFunc == newEventFromTrustedJSONWithEventIDV2
 //@   ensures table.11.present: "11" in roomVersionMeta
 //@   ensures table.11.ver: roomVersionMeta["11"].(RoomVersionImpl).ver == "11"
 //@   ensures table.11.stable: roomVersionMeta["11"].(RoomVersionImpl).stable == true
 //@   ensures table.11.stateResAlgorithm: roomVersionMeta["11"].(RoomVersionImpl).stateResAlgorithm == StateResV2
+//@   ensures C10.table.11.stateResAlgorithm: roomVersionMeta["11"].(RoomVersionImpl).stateResAlgorithm == StateResV2
 //@   ensures table.11.eventFormat: roomVersionMeta["11"].(RoomVersionImpl).eventFormat == EventFormatV2
+//@   ensures C03.table.11.eventFormat: roomVersionMeta["11"].(RoomVersionImpl).eventFormat == EventFormatV2
 //@   ensures table.11.eventIDFormat: roomVersionMeta["11"].(RoomVersionImpl).eventIDFormat == EventIDFormatV3
+//@   ensures C06.table.11.eventIDFormat: roomVersionMeta["11"].(RoomVersionImpl).eventIDFormat == EventIDFormatV3
+//@   ensures C03.table.11.eventIDFormat: roomVersionMeta["11"].(RoomVersionImpl).eventIDFormat == EventIDFormatV3
 //@   ensures table.11.redactionAlgorithm: roomVersionMeta["11"].(RoomVersionImpl).redactionAlgorithm == redactEventJSONV5
+//@   ensures C06.table.11.redactionAlgorithm: roomVersionMeta["11"].(RoomVersionImpl).redactionAlgorithm == redactEventJSONV5
+//@   ensures C05.table.11.redactionAlgorithm: roomVersionMeta["11"].(RoomVersionImpl).redactionAlgorithm == redactEventJSONV5
 //@   ensures table.11.signatureValidityCheckFunc: roomVersionMeta["11"].(RoomVersionImpl).signatureValidityCheckFunc == StrictValiditySignatureCheck
+//@   ensures C06.table.11.signatureValidityCheckFunc: roomVersionMeta["11"].(RoomVersionImpl).signatureValidityCheckFunc == StrictValiditySignatureCheck
 //@   ensures table.11.canonicalJSONCheck: roomVersionMeta["11"].(RoomVersionImpl).canonicalJSONCheck == verifyEnforcedCanonicalJSON
+//@   ensures C01.table.11.canonicalJSONCheck: roomVersionMeta["11"].(RoomVersionImpl).canonicalJSONCheck == verifyEnforcedCanonicalJSON
 //@   ensures table.11.checkPowerLevelEvent: roomVersionMeta["11"].(RoomVersionImpl).checkPowerLevelEvent == checkPowerLevelEventV2
+//@   ensures C07.table.11.checkPowerLevelEvent: roomVersionMeta["11"].(RoomVersionImpl).checkPowerLevelEvent == checkPowerLevelEventV2
+//@   ensures C08.table.11.checkPowerLevelEvent: roomVersionMeta["11"].(RoomVersionImpl).checkPowerLevelEvent == checkPowerLevelEventV2
 //@   ensures table.11.parsePowerLevelsFunc: roomVersionMeta["11"].(RoomVersionImpl).parsePowerLevelsFunc == parseIntegerPowerLevels
+//@   ensures C08.table.11.parsePowerLevelsFunc: roomVersionMeta["11"].(RoomVersionImpl).parsePowerLevelsFunc == parseIntegerPowerLevels
 //@   ensures table.11.domainlessRoomID: roomVersionMeta["11"].(RoomVersionImpl).domainlessRoomID == false
 //@   ensures table.11.privilegedCreators: roomVersionMeta["11"].(RoomVersionImpl).privilegedCreators == false
+//@   ensures C07.table.11.privilegedCreators: roomVersionMeta["11"].(RoomVersionImpl).privilegedCreators == false
 //@   ensures table.11.checkRestrictedJoin: roomVersionMeta["11"].(RoomVersionImpl).checkRestrictedJoin == checkRestrictedJoin
 //@   ensures table.11.restrictedJoinServernameFunc: roomVersionMeta["11"].(RoomVersionImpl).restrictedJoinServernameFunc == extractAuthorisedViaServerName
+//@   ensures C06.table.11.restrictedJoinServernameFunc: roomVersionMeta["11"].(RoomVersionImpl).restrictedJoinServernameFunc == extractAuthorisedViaServerName
 //@   ensures table.11.checkRestrictedJoinAllowedFunc: roomVersionMeta["11"].(RoomVersionImpl).checkRestrictedJoinAllowedFunc == allowRestrictedJoins
+//@   ensures C07.table.11.checkRestrictedJoinAllowedFunc: roomVersionMeta["11"].(RoomVersionImpl).checkRestrictedJoinAllowedFunc == allowRestrictedJoins
 //@   ensures table.11.checkKnockingAllowedFunc: roomVersionMeta["11"].(RoomVersionImpl).checkKnockingAllowedFunc == checkKnocking
+//@   ensures C07.table.11.checkKnockingAllowedFunc: roomVersionMeta["11"].(RoomVersionImpl).checkKnockingAllowedFunc == checkKnocking
 //@   ensures table.11.checkCreateEvent: roomVersionMeta["11"].(RoomVersionImpl).checkCreateEvent == checkCreateEventV2
+//@   ensures C07.table.11.checkCreateEvent: roomVersionMeta["11"].(RoomVersionImpl).checkCreateEvent == checkCreateEventV2
 //@   ensures table.11.newEventFromUntrustedJSONFunc: roomVersionMeta["11"].(RoomVersionImpl).newEventFromUntrustedJSONFunc == newEventFromUntrustedJSONV2
+//@   ensures C03.table.11.newEventFromUntrustedJSONFunc: roomVersionMeta["11"].(RoomVersionImpl).newEventFromUntrustedJSONFunc == newEventFromUntrustedJSONV2
+//@   ensures C04.table.11.newEventFromUntrustedJSONFunc: roomVersionMeta["11"].(RoomVersionImpl).newEventFromUntrustedJSONFunc == newEventFromUntrustedJSONV2
 //@   ensures table.11.newEventFromTrustedJSONFunc: roomVersionMeta["11"].(RoomVersionImpl).newEventFromTrustedJSONFunc == newEventFromTrustedJSONV2
+//@   ensures C03.table.11.newEventFromTrustedJSONFunc: roomVersionMeta["11"].(RoomVersionImpl).newEventFromTrustedJSONFunc == newEventFromTrustedJSONV2
 //@   ensures table.11.newEventFromTrustedJSONWithEventIDFunc: roomVersionMeta["11"].(RoomVersionImpl).newEventFromTrustedJSONWithEventIDFunc == newEventFromTrustedJSONWithEventIDV2
+//@   ensures C03.table.11.newEventFromTrustedJSONWithEventIDFunc: roomVersionMeta["11"].(RoomVersionImpl).newEventFromTrustedJSONWithEventIDFunc == newEventFromTrustedJSONWithEventIDV2
 //@   ensures table.12.present: "12" in roomVersionMeta
 //@   ensures table.12.ver: roomVersionMeta["12"].(RoomVersionImpl).ver == "12"
 //@   ensures table.12.stable: roomVersionMeta["12"].(RoomVersionImpl).stable == true
 //@   ensures table.12.stateResAlgorithm: roomVersionMeta["12"].(RoomVersionImpl).stateResAlgorithm == StateResV2_1
+//@   ensures C10.table.12.stateResAlgorithm: roomVersionMeta["12"].(RoomVersionImpl).stateResAlgorithm == StateResV2_1
 //@   ensures table.12.eventFormat: roomVersionMeta["12"].(RoomVersionImpl).eventFormat == EventFormatV2
+//@   ensures C03.table.12.eventFormat: roomVersionMeta["12"].(RoomVersionImpl).eventFormat == EventFormatV2
 //@   ensures table.12.eventIDFormat: roomVersionMeta["12"].(RoomVersionImpl).eventIDFormat == EventIDFormatV3
+//@   ensures C06.table.12.eventIDFormat: roomVersionMeta["12"].(RoomVersionImpl).eventIDFormat == EventIDFormatV3
+//@   ensures C03.table.12.eventIDFormat: roomVersionMeta["12"].(RoomVersionImpl).eventIDFormat == EventIDFormatV3
 //@   ensures table.12.redactionAlgorithm: roomVersionMeta["12"].(RoomVersionImpl).redactionAlgorithm == redactEventJSONV5
+//@   ensures C06.table.12.redactionAlgorithm: roomVersionMeta["12"].(RoomVersionImpl).redactionAlgorithm == redactEventJSONV5
+//@   ensures C05.table.12.redactionAlgorithm: roomVersionMeta["12"].(RoomVersionImpl).redactionAlgorithm == redactEventJSONV5
 //@   ensures table.12.signatureValidityCheckFunc: roomVersionMeta["12"].(RoomVersionImpl).signatureValidityCheckFunc == StrictValiditySignatureCheck
+//@   ensures C06.table.12.signatureValidityCheckFunc: roomVersionMeta["12"].(RoomVersionImpl).signatureValidityCheckFunc == StrictValiditySignatureCheck
 //@   ensures table.12.canonicalJSONCheck: roomVersionMeta["12"].(RoomVersionImpl).canonicalJSONCheck == verifyEnforcedCanonicalJSON
+//@   ensures C01.table.12.canonicalJSONCheck: roomVersionMeta["12"].(RoomVersionImpl).canonicalJSONCheck == verifyEnforcedCanonicalJSON
 //@   ensures table.12.checkPowerLevelEvent: roomVersionMeta["12"].(RoomVersionImpl).checkPowerLevelEvent == checkPowerLevelEventV3
+//@   ensures C07.table.12.checkPowerLevelEvent: roomVersionMeta["12"].(RoomVersionImpl).checkPowerLevelEvent == checkPowerLevelEventV3
+//@   ensures C08.table.12.checkPowerLevelEvent: roomVersionMeta["12"].(RoomVersionImpl).checkPowerLevelEvent == checkPowerLevelEventV3
 //@   ensures table.12.parsePowerLevelsFunc: roomVersionMeta["12"].(RoomVersionImpl).parsePowerLevelsFunc == parseIntegerPowerLevels
+//@   ensures C08.table.12.parsePowerLevelsFunc: roomVersionMeta["12"].(RoomVersionImpl).parsePowerLevelsFunc == parseIntegerPowerLevels
 //@   ensures table.12.domainlessRoomID: roomVersionMeta["12"].(RoomVersionImpl).domainlessRoomID == true
 //@   ensures table.12.privilegedCreators: roomVersionMeta["12"].(RoomVersionImpl).privilegedCreators == true
+//@   ensures C07.table.12.privilegedCreators: roomVersionMeta["12"].(RoomVersionImpl).privilegedCreators == true
 //@   ensures table.12.checkRestrictedJoin: roomVersionMeta["12"].(RoomVersionImpl).checkRestrictedJoin == checkRestrictedJoin
 //@   ensures table.12.restrictedJoinServernameFunc: roomVersionMeta["12"].(RoomVersionImpl).restrictedJoinServernameFunc == extractAuthorisedViaServerName
+//@   ensures C06.table.12.restrictedJoinServernameFunc: roomVersionMeta["12"].(RoomVersionImpl).restrictedJoinServernameFunc == extractAuthorisedViaServerName
 //@   ensures table.12.checkRestrictedJoinAllowedFunc: roomVersionMeta["12"].(RoomVersionImpl).checkRestrictedJoinAllowedFunc == allowRestrictedJoins
+//@   ensures C07.table.12.checkRestrictedJoinAllowedFunc: roomVersionMeta["12"].(RoomVersionImpl).checkRestrictedJoinAllowedFunc == allowRestrictedJoins
 //@   ensures table.12.checkKnockingAllowedFunc: roomVersionMeta["12"].(RoomVersionImpl).checkKnockingAllowedFunc == checkKnocking
+//@   ensures C07.table.12.checkKnockingAllowedFunc: roomVersionMeta["12"].(RoomVersionImpl).checkKnockingAllowedFunc == checkKnocking
 //@   ensures table.12.checkCreateEvent: roomVersionMeta["12"].(RoomVersionImpl).checkCreateEvent == checkCreateEventV3
+//@   ensures C07.table.12.checkCreateEvent: roomVersionMeta["12"].(RoomVersionImpl).checkCreateEvent == checkCreateEventV3
 //@   ensures table.12.newEventFromUntrustedJSONFunc: roomVersionMeta["12"].(RoomVersionImpl).newEventFromUntrustedJSONFunc == newEventFromUntrustedJSONV3
+//@   ensures C03.table.12.newEventFromUntrustedJSONFunc: roomVersionMeta["12"].(RoomVersionImpl).newEventFromUntrustedJSONFunc == newEventFromUntrustedJSONV3
+//@   ensures C04.table.12.newEventFromUntrustedJSONFunc: roomVersionMeta["12"].(RoomVersionImpl).newEventFromUntrustedJSONFunc == newEventFromUntrustedJSONV3
 //@   ensures table.12.newEventFromTrustedJSONFunc: roomVersionMeta["12"].(RoomVersionImpl).newEventFromTrustedJSONFunc == newEventFromTrustedJSONV3
+//@   ensures C03.table.12.newEventFromTrustedJSONFunc: roomVersionMeta["12"].(RoomVersionImpl).newEventFromTrustedJSONFunc == newEventFromTrustedJSONV3
 //@   ensures table.12.newEventFromTrustedJSONWithEventIDFunc: roomVersionMeta["12"].(RoomVersionImpl).newEventFromTrustedJSONWithEventIDFunc == newEventFromTrustedJSONWithEventIDV3
+//@   ensures C03.table.12.newEventFromTrustedJSONWithEventIDFunc: roomVersionMeta["12"].(RoomVersionImpl).newEventFromTrustedJSONWithEventIDFunc == newEventFromTrustedJSONWithEventIDV3
 //@   ensures table.org.matrix.msc3667.present: "org.matrix.msc3667" in roomVersionMeta
 //@   ensures table.org.matrix.msc3667.ver: roomVersionMeta["org.matrix.msc3667"].(RoomVersionImpl).ver == "org.matrix.msc3667"
 //@   ensures table.org.matrix.msc3667.stable: roomVersionMeta["org.matrix.msc3667"].(RoomVersionImpl).stable == false
 //@   ensures table.org.matrix.msc3667.stateResAlgorithm: roomVersionMeta["org.matrix.msc3667"].(RoomVersionImpl).stateResAlgorithm == StateResV2
+//@   ensures C10.table.org.matrix.msc3667.stateResAlgorithm: roomVersionMeta["org.matrix.msc3667"].(RoomVersionImpl).stateResAlgorithm == StateResV2
 //@   ensures table.org.matrix.msc3667.eventFormat: roomVersionMeta["org.matrix.msc3667"].(RoomVersionImpl).eventFormat == EventFormatV2
+//@   ensures C03.table.org.matrix.msc3667.eventFormat: roomVersionMeta["org.matrix.msc3667"].(RoomVersionImpl).eventFormat == EventFormatV2
 //@   ensures table.org.matrix.msc3667.eventIDFormat: roomVersionMeta["org.matrix.msc3667"].(RoomVersionImpl).eventIDFormat == EventIDFormatV3
+//@   ensures C06.table.org.matrix.msc3667.eventIDFormat: roomVersionMeta["org.matrix.msc3667"].(RoomVersionImpl).eventIDFormat == EventIDFormatV3
+//@   ensures C03.table.org.matrix.msc3667.eventIDFormat: roomVersionMeta["org.matrix.msc3667"].(RoomVersionImpl).eventIDFormat == EventIDFormatV3
 //@   ensures table.org.matrix.msc3667.redactionAlgorithm: roomVersionMeta["org.matrix.msc3667"].(RoomVersionImpl).redactionAlgorithm == redactEventJSONV2
+//@   ensures C06.table.org.matrix.msc3667.redactionAlgorithm: roomVersionMeta["org.matrix.msc3667"].(RoomVersionImpl).redactionAlgorithm == redactEventJSONV2
+//@   ensures C05.table.org.matrix.msc3667.redactionAlgorithm: roomVersionMeta["org.matrix.msc3667"].(RoomVersionImpl).redactionAlgorithm == redactEventJSONV2
 //@   ensures table.org.matrix.msc3667.signatureValidityCheckFunc: roomVersionMeta["org.matrix.msc3667"].(RoomVersionImpl).signatureValidityCheckFunc == StrictValiditySignatureCheck
+//@   ensures C06.table.org.matrix.msc3667.signatureValidityCheckFunc: roomVersionMeta["org.matrix.msc3667"].(RoomVersionImpl).signatureValidityCheckFunc == StrictValiditySignatureCheck
 //@   ensures table.org.matrix.msc3667.canonicalJSONCheck: roomVersionMeta["org.matrix.msc3667"].(RoomVersionImpl).canonicalJSONCheck == verifyEnforcedCanonicalJSON
+//@   ensures C01.table.org.matrix.msc3667.canonicalJSONCheck: roomVersionMeta["org.matrix.msc3667"].(RoomVersionImpl).canonicalJSONCheck == verifyEnforcedCanonicalJSON
 //@   ensures table.org.matrix.msc3667.checkPowerLevelEvent: roomVersionMeta["org.matrix.msc3667"].(RoomVersionImpl).checkPowerLevelEvent == checkPowerLevelEventV2
+//@   ensures C07.table.org.matrix.msc3667.checkPowerLevelEvent: roomVersionMeta["org.matrix.msc3667"].(RoomVersionImpl).checkPowerLevelEvent == checkPowerLevelEventV2
+//@   ensures C08.table.org.matrix.msc3667.checkPowerLevelEvent: roomVersionMeta["org.matrix.msc3667"].(RoomVersionImpl).checkPowerLevelEvent == checkPowerLevelEventV2
 //@   ensures table.org.matrix.msc3667.parsePowerLevelsFunc: roomVersionMeta["org.matrix.msc3667"].(RoomVersionImpl).parsePowerLevelsFunc == parseIntegerPowerLevels
+//@   ensures C08.table.org.matrix.msc3667.parsePowerLevelsFunc: roomVersionMeta["org.matrix.msc3667"].(RoomVersionImpl).parsePowerLevelsFunc == parseIntegerPowerLevels
 //@   ensures table.org.matrix.msc3667.domainlessRoomID: roomVersionMeta["org.matrix.msc3667"].(RoomVersionImpl).domainlessRoomID == false
 //@   ensures table.org.matrix.msc3667.privilegedCreators: roomVersionMeta["org.matrix.msc3667"].(RoomVersionImpl).privilegedCreators == false
+//@   ensures C07.table.org.matrix.msc3667.privilegedCreators: roomVersionMeta["org.matrix.msc3667"].(RoomVersionImpl).privilegedCreators == false
 //@   ensures table.org.matrix.msc3667.checkRestrictedJoin: roomVersionMeta["org.matrix.msc3667"].(RoomVersionImpl).checkRestrictedJoin == noCheckRestrictedJoin
 //@   ensures table.org.matrix.msc3667.restrictedJoinServernameFunc: roomVersionMeta["org.matrix.msc3667"].(RoomVersionImpl).restrictedJoinServernameFunc == emptyAuthorisedViaServerName
+//@   ensures C06.table.org.matrix.msc3667.restrictedJoinServernameFunc: roomVersionMeta["org.matrix.msc3667"].(RoomVersionImpl).restrictedJoinServernameFunc == emptyAuthorisedViaServerName
 //@   ensures table.org.matrix.msc3667.checkRestrictedJoinAllowedFunc: roomVersionMeta["org.matrix.msc3667"].(RoomVersionImpl).checkRestrictedJoinAllowedFunc == disallowRestrictedJoins
+//@   ensures C07.table.org.matrix.msc3667.checkRestrictedJoinAllowedFunc: roomVersionMeta["org.matrix.msc3667"].(RoomVersionImpl).checkRestrictedJoinAllowedFunc == disallowRestrictedJoins
 //@   ensures table.org.matrix.msc3667.checkKnockingAllowedFunc: roomVersionMeta["org.matrix.msc3667"].(RoomVersionImpl).checkKnockingAllowedFunc == checkKnocking
+//@   ensures C07.table.org.matrix.msc3667.checkKnockingAllowedFunc: roomVersionMeta["org.matrix.msc3667"].(RoomVersionImpl).checkKnockingAllowedFunc == checkKnocking
 //@   ensures table.org.matrix.msc3667.checkCreateEvent: roomVersionMeta["org.matrix.msc3667"].(RoomVersionImpl).checkCreateEvent == checkCreateEventV1
+//@   ensures C07.table.org.matrix.msc3667.checkCreateEvent: roomVersionMeta["org.matrix.msc3667"].(RoomVersionImpl).checkCreateEvent == checkCreateEventV1
 //@   ensures table.org.matrix.msc3667.newEventFromUntrustedJSONFunc: roomVersionMeta["org.matrix.msc3667"].(RoomVersionImpl).newEventFromUntrustedJSONFunc == newEventFromUntrustedJSONV2
+//@   ensures C03.table.org.matrix.msc3667.newEventFromUntrustedJSONFunc: roomVersionMeta["org.matrix.msc3667"].(RoomVersionImpl).newEventFromUntrustedJSONFunc == newEventFromUntrustedJSONV2
+//@   ensures C04.table.org.matrix.msc3667.newEventFromUntrustedJSONFunc: roomVersionMeta["org.matrix.msc3667"].(RoomVersionImpl).newEventFromUntrustedJSONFunc == newEventFromUntrustedJSONV2
 //@   ensures table.org.matrix.msc3667.newEventFromTrustedJSONFunc: roomVersionMeta["org.matrix.msc3667"].(RoomVersionImpl).newEventFromTrustedJSONFunc == newEventFromTrustedJSONV2
+//@   ensures C03.table.org.matrix.msc3667.newEventFromTrustedJSONFunc: roomVersionMeta["org.matrix.msc3667"].(RoomVersionImpl).newEventFromTrustedJSONFunc == newEventFromTrustedJSONV2
 //@   ensures table.org.matrix.msc3667.newEventFromTrustedJSONWithEventIDFunc: roomVersionMeta["org.matrix.msc3667"].(RoomVersionImpl).newEventFromTrustedJSONWithEventIDFunc == newEventFromTrustedJSONWithEventIDV2
+//@   ensures C03.table.org.matrix.msc3667.newEventFromTrustedJSONWithEventIDFunc: roomVersionMeta["org.matrix.msc3667"].(RoomVersionImpl).newEventFromTrustedJSONWithEventIDFunc == newEventFromTrustedJSONWithEventIDV2
 //@   ensures table.org.matrix.msc3787.present: "org.matrix.msc3787" in roomVersionMeta
 //@   ensures table.org.matrix.msc3787.ver: roomVersionMeta["org.matrix.msc3787"].(RoomVersionImpl).ver == "org.matrix.msc3787"
 //@   ensures table.org.matrix.msc3787.stable: roomVersionMeta["org.matrix.msc3787"].(RoomVersionImpl).stable == false
 //@   ensures table.org.matrix.msc3787.stateResAlgorithm: roomVersionMeta["org.matrix.msc3787"].(RoomVersionImpl).stateResAlgorithm == StateResV2
+//@   ensures C10.table.org.matrix.msc3787.stateResAlgorithm: roomVersionMeta["org.matrix.msc3787"].(RoomVersionImpl).stateResAlgorithm == StateResV2
 //@   ensures table.org.matrix.msc3787.eventFormat: roomVersionMeta["org.matrix.msc3787"].(RoomVersionImpl).eventFormat == EventFormatV2
+//@   ensures C03.table.org.matrix.msc3787.eventFormat: roomVersionMeta["org.matrix.msc3787"].(RoomVersionImpl).eventFormat == EventFormatV2
 //@   ensures table.org.matrix.msc3787.eventIDFormat: roomVersionMeta["org.matrix.msc3787"].(RoomVersionImpl).eventIDFormat == EventIDFormatV3
+//@   ensures C06.table.org.matrix.msc3787.eventIDFormat: roomVersionMeta["org.matrix.msc3787"].(RoomVersionImpl).eventIDFormat == EventIDFormatV3
+//@   ensures C03.table.org.matrix.msc3787.eventIDFormat: roomVersionMeta["org.matrix.msc3787"].(RoomVersionImpl).eventIDFormat == EventIDFormatV3
 //@   ensures table.org.matrix.msc3787.redactionAlgorithm: roomVersionMeta["org.matrix.msc3787"].(RoomVersionImpl).redactionAlgorithm == redactEventJSONV4
+//@   ensures C06.table.org.matrix.msc3787.redactionAlgorithm: roomVersionMeta["org.matrix.msc3787"].(RoomVersionImpl).redactionAlgorithm == redactEventJSONV4
+//@   ensures C05.table.org.matrix.msc3787.redactionAlgorithm: roomVersionMeta["org.matrix.msc3787"].(RoomVersionImpl).redactionAlgorithm == redactEventJSONV4
 //@   ensures table.org.matrix.msc3787.signatureValidityCheckFunc: roomVersionMeta["org.matrix.msc3787"].(RoomVersionImpl).signatureValidityCheckFunc == StrictValiditySignatureCheck
+//@   ensures C06.table.org.matrix.msc3787.signatureValidityCheckFunc: roomVersionMeta["org.matrix.msc3787"].(RoomVersionImpl).signatureValidityCheckFunc == StrictValiditySignatureCheck
 //@   ensures table.org.matrix.msc3787.canonicalJSONCheck: roomVersionMeta["org.matrix.msc3787"].(RoomVersionImpl).canonicalJSONCheck == verifyEnforcedCanonicalJSON
+//@   ensures C01.table.org.matrix.msc3787.canonicalJSONCheck: roomVersionMeta["org.matrix.msc3787"].(RoomVersionImpl).canonicalJSONCheck == verifyEnforcedCanonicalJSON
 //@   ensures table.org.matrix.msc3787.checkPowerLevelEvent: roomVersionMeta["org.matrix.msc3787"].(RoomVersionImpl).checkPowerLevelEvent == checkPowerLevelEventV2
+//@   ensures C07.table.org.matrix.msc3787.checkPowerLevelEvent: roomVersionMeta["org.matrix.msc3787"].(RoomVersionImpl).checkPowerLevelEvent == checkPowerLevelEventV2
+//@   ensures C08.table.org.matrix.msc3787.checkPowerLevelEvent: roomVersionMeta["org.matrix.msc3787"].(RoomVersionImpl).checkPowerLevelEvent == checkPowerLevelEventV2
 //@   ensures table.org.matrix.msc3787.parsePowerLevelsFunc: roomVersionMeta["org.matrix.msc3787"].(RoomVersionImpl).parsePowerLevelsFunc == parsePowerLevels
+//@   ensures C08.table.org.matrix.msc3787.parsePowerLevelsFunc: roomVersionMeta["org.matrix.msc3787"].(RoomVersionImpl).parsePowerLevelsFunc == parsePowerLevels
 //@   ensures table.org.matrix.msc3787.domainlessRoomID: roomVersionMeta["org.matrix.msc3787"].(RoomVersionImpl).domainlessRoomID == false
 //@   ensures table.org.matrix.msc3787.privilegedCreators: roomVersionMeta["org.matrix.msc3787"].(RoomVersionImpl).privilegedCreators == false
+//@   ensures C07.table.org.matrix.msc3787.privilegedCreators: roomVersionMeta["org.matrix.msc3787"].(RoomVersionImpl).privilegedCreators == false
 //@   ensures table.org.matrix.msc3787.checkRestrictedJoin: roomVersionMeta["org.matrix.msc3787"].(RoomVersionImpl).checkRestrictedJoin == checkRestrictedJoin
 //@   ensures table.org.matrix.msc3787.restrictedJoinServernameFunc: roomVersionMeta["org.matrix.msc3787"].(RoomVersionImpl).restrictedJoinServernameFunc == extractAuthorisedViaServerName
+//@   ensures C06.table.org.matrix.msc3787.restrictedJoinServernameFunc: roomVersionMeta["org.matrix.msc3787"].(RoomVersionImpl).restrictedJoinServernameFunc == extractAuthorisedViaServerName
 //@   ensures table.org.matrix.msc3787.checkRestrictedJoinAllowedFunc: roomVersionMeta["org.matrix.msc3787"].(RoomVersionImpl).checkRestrictedJoinAllowedFunc == allowRestrictedJoins
+//@   ensures C07.table.org.matrix.msc3787.checkRestrictedJoinAllowedFunc: roomVersionMeta["org.matrix.msc3787"].(RoomVersionImpl).checkRestrictedJoinAllowedFunc == allowRestrictedJoins
 //@   ensures table.org.matrix.msc3787.checkKnockingAllowedFunc: roomVersionMeta["org.matrix.msc3787"].(RoomVersionImpl).checkKnockingAllowedFunc == checkKnocking
+//@   ensures C07.table.org.matrix.msc3787.checkKnockingAllowedFunc: roomVersionMeta["org.matrix.msc3787"].(RoomVersionImpl).checkKnockingAllowedFunc == checkKnocking
 //@   ensures table.org.matrix.msc3787.checkCreateEvent: roomVersionMeta["org.matrix.msc3787"].(RoomVersionImpl).checkCreateEvent == checkCreateEventV1
+//@   ensures C07.table.org.matrix.msc3787.checkCreateEvent: roomVersionMeta["org.matrix.msc3787"].(RoomVersionImpl).checkCreateEvent == checkCreateEventV1
 //@   ensures table.org.matrix.msc3787.newEventFromUntrustedJSONFunc: roomVersionMeta["org.matrix.msc3787"].(RoomVersionImpl).newEventFromUntrustedJSONFunc == newEventFromUntrustedJSONV2
+//@   ensures C03.table.org.matrix.msc3787.newEventFromUntrustedJSONFunc: roomVersionMeta["org.matrix.msc3787"].(RoomVersionImpl).newEventFromUntrustedJSONFunc == newEventFromUntrustedJSONV2
+//@   ensures C04.table.org.matrix.msc3787.newEventFromUntrustedJSONFunc: roomVersionMeta["org.matrix.msc3787"].(RoomVersionImpl).newEventFromUntrustedJSONFunc == newEventFromUntrustedJSONV2
 //@   ensures table.org.matrix.msc3787.newEventFromTrustedJSONFunc: roomVersionMeta["org.matrix.msc3787"].(RoomVersionImpl).newEventFromTrustedJSONFunc == newEventFromTrustedJSONV2
+//@   ensures C03.table.org.matrix.msc3787.newEventFromTrustedJSONFunc: roomVersionMeta["org.matrix.msc3787"].(RoomVersionImpl).newEventFromTrustedJSONFunc == newEventFromTrustedJSONV2
 //@   ensures table.org.matrix.msc3787.newEventFromTrustedJSONWithEventIDFunc: roomVersionMeta["org.matrix.msc3787"].(RoomVersionImpl).newEventFromTrustedJSONWithEventIDFunc == newEventFromTrustedJSONWithEventIDV2
+//@   ensures C03.table.org.matrix.msc3787.newEventFromTrustedJSONWithEventIDFunc: roomVersionMeta["org.matrix.msc3787"].(RoomVersionImpl).newEventFromTrustedJSONWithEventIDFunc == newEventFromTrustedJSONWithEventIDV2
 //@   ensures table.org.matrix.msc4014.present: "org.matrix.msc4014" in roomVersionMeta
 //@   ensures table.org.matrix.msc4014.ver: roomVersionMeta["org.matrix.msc4014"].(RoomVersionImpl).ver == "org.matrix.msc4014"
 //@   ensures table.org.matrix.msc4014.stable: roomVersionMeta["org.matrix.msc4014"].(RoomVersionImpl).stable == false
 //@   ensures table.org.matrix.msc4014.stateResAlgorithm: roomVersionMeta["org.matrix.msc4014"].(RoomVersionImpl).stateResAlgorithm == StateResV2
+//@   ensures C10.table.org.matrix.msc4014.stateResAlgorithm: roomVersionMeta["org.matrix.msc4014"].(RoomVersionImpl).stateResAlgorithm == StateResV2
 //@   ensures table.org.matrix.msc4014.eventFormat: roomVersionMeta["org.matrix.msc4014"].(RoomVersionImpl).eventFormat == EventFormatV2
+//@   ensures C03.table.org.matrix.msc4014.eventFormat: roomVersionMeta["org.matrix.msc4014"].(RoomVersionImpl).eventFormat == EventFormatV2
 //@   ensures table.org.matrix.msc4014.eventIDFormat: roomVersionMeta["org.matrix.msc4014"].(RoomVersionImpl).eventIDFormat == EventIDFormatV3
+//@   ensures C06.table.org.matrix.msc4014.eventIDFormat: roomVersionMeta["org.matrix.msc4014"].(RoomVersionImpl).eventIDFormat == EventIDFormatV3
+//@   ensures C03.table.org.matrix.msc4014.eventIDFormat: roomVersionMeta["org.matrix.msc4014"].(RoomVersionImpl).eventIDFormat == EventIDFormatV3
 //@   ensures table.org.matrix.msc4014.redactionAlgorithm: roomVersionMeta["org.matrix.msc4014"].(RoomVersionImpl).redactionAlgorithm == redactEventJSONV4
+//@   ensures C06.table.org.matrix.msc4014.redactionAlgorithm: roomVersionMeta["org.matrix.msc4014"].(RoomVersionImpl).redactionAlgorithm == redactEventJSONV4
+//@   ensures C05.table.org.matrix.msc4014.redactionAlgorithm: roomVersionMeta["org.matrix.msc4014"].(RoomVersionImpl).redactionAlgorithm == redactEventJSONV4
 //@   ensures table.org.matrix.msc4014.signatureValidityCheckFunc: roomVersionMeta["org.matrix.msc4014"].(RoomVersionImpl).signatureValidityCheckFunc == StrictValiditySignatureCheck
+//@   ensures C06.table.org.matrix.msc4014.signatureValidityCheckFunc: roomVersionMeta["org.matrix.msc4014"].(RoomVersionImpl).signatureValidityCheckFunc == StrictValiditySignatureCheck
 //@   ensures table.org.matrix.msc4014.canonicalJSONCheck: roomVersionMeta["org.matrix.msc4014"].(RoomVersionImpl).canonicalJSONCheck == verifyEnforcedCanonicalJSON
+//@   ensures C01.table.org.matrix.msc4014.canonicalJSONCheck: roomVersionMeta["org.matrix.msc4014"].(RoomVersionImpl).canonicalJSONCheck == verifyEnforcedCanonicalJSON
 //@   ensures table.org.matrix.msc4014.checkPowerLevelEvent: roomVersionMeta["org.matrix.msc4014"].(RoomVersionImpl).checkPowerLevelEvent == checkPowerLevelEventV2
+//@   ensures C07.table.org.matrix.msc4014.checkPowerLevelEvent: roomVersionMeta["org.matrix.msc4014"].(RoomVersionImpl).checkPowerLevelEvent == checkPowerLevelEventV2
+//@   ensures C08.table.org.matrix.msc4014.checkPowerLevelEvent: roomVersionMeta["org.matrix.msc4014"].(RoomVersionImpl).checkPowerLevelEvent == checkPowerLevelEventV2
 //@   ensures table.org.matrix.msc4014.parsePowerLevelsFunc: roomVersionMeta["org.matrix.msc4014"].(RoomVersionImpl).parsePowerLevelsFunc == parseIntegerPowerLevels
+//@   ensures C08.table.org.matrix.msc4014.parsePowerLevelsFunc: roomVersionMeta["org.matrix.msc4014"].(RoomVersionImpl).parsePowerLevelsFunc == parseIntegerPowerLevels
 //@   ensures table.org.matrix.msc4014.domainlessRoomID: roomVersionMeta["org.matrix.msc4014"].(RoomVersionImpl).domainlessRoomID == false
 //@   ensures table.org.matrix.msc4014.privilegedCreators: roomVersionMeta["org.matrix.msc4014"].(RoomVersionImpl).privilegedCreators == false
+//@   ensures C07.table.org.matrix.msc4014.privilegedCreators: roomVersionMeta["org.matrix.msc4014"].(RoomVersionImpl).privilegedCreators == false
 //@   ensures table.org.matrix.msc4014.checkRestrictedJoin: roomVersionMeta["org.matrix.msc4014"].(RoomVersionImpl).checkRestrictedJoin == checkRestrictedJoin
 //@   ensures table.org.matrix.msc4014.restrictedJoinServernameFunc: roomVersionMeta["org.matrix.msc4014"].(RoomVersionImpl).restrictedJoinServernameFunc == extractAuthorisedViaServerName
+//@   ensures C06.table.org.matrix.msc4014.restrictedJoinServernameFunc: roomVersionMeta["org.matrix.msc4014"].(RoomVersionImpl).restrictedJoinServernameFunc == extractAuthorisedViaServerName
 //@   ensures table.org.matrix.msc4014.checkRestrictedJoinAllowedFunc: roomVersionMeta["org.matrix.msc4014"].(RoomVersionImpl).checkRestrictedJoinAllowedFunc == allowRestrictedJoins
+//@   ensures C07.table.org.matrix.msc4014.checkRestrictedJoinAllowedFunc: roomVersionMeta["org.matrix.msc4014"].(RoomVersionImpl).checkRestrictedJoinAllowedFunc == allowRestrictedJoins
 //@   ensures table.org.matrix.msc4014.checkKnockingAllowedFunc: roomVersionMeta["org.matrix.msc4014"].(RoomVersionImpl).checkKnockingAllowedFunc == checkKnocking
+//@   ensures C07.table.org.matrix.msc4014.checkKnockingAllowedFunc: roomVersionMeta["org.matrix.msc4014"].(RoomVersionImpl).checkKnockingAllowedFunc == checkKnocking
 //@   ensures table.org.matrix.msc4014.checkCreateEvent: roomVersionMeta["org.matrix.msc4014"].(RoomVersionImpl).checkCreateEvent == checkCreateEventV1
+//@   ensures C07.table.org.matrix.msc4014.checkCreateEvent: roomVersionMeta["org.matrix.msc4014"].(RoomVersionImpl).checkCreateEvent == checkCreateEventV1
 //@   ensures table.org.matrix.msc4014.newEventFromUntrustedJSONFunc: roomVersionMeta["org.matrix.msc4014"].(RoomVersionImpl).newEventFromUntrustedJSONFunc == newEventFromUntrustedJSONV2
+//@   ensures C03.table.org.matrix.msc4014.newEventFromUntrustedJSONFunc: roomVersionMeta["org.matrix.msc4014"].(RoomVersionImpl).newEventFromUntrustedJSONFunc == newEventFromUntrustedJSONV2
+//@   ensures C04.table.org.matrix.msc4014.newEventFromUntrustedJSONFunc: roomVersionMeta["org.matrix.msc4014"].(RoomVersionImpl).newEventFromUntrustedJSONFunc == newEventFromUntrustedJSONV2
 //@   ensures table.org.matrix.msc4014.newEventFromTrustedJSONFunc: roomVersionMeta["org.matrix.msc4014"].(RoomVersionImpl).newEventFromTrustedJSONFunc == newEventFromTrustedJSONV2
+//@   ensures C03.table.org.matrix.msc4014.newEventFromTrustedJSONFunc: roomVersionMeta["org.matrix.msc4014"].(RoomVersionImpl).newEventFromTrustedJSONFunc == newEventFromTrustedJSONV2
 //@   ensures table.org.matrix.msc4014.newEventFromTrustedJSONWithEventIDFunc: roomVersionMeta["org.matrix.msc4014"].(RoomVersionImpl).newEventFromTrustedJSONWithEventIDFunc == newEventFromTrustedJSONWithEventIDV2
+//@   ensures C03.table.org.matrix.msc4014.newEventFromTrustedJSONWithEventIDFunc: roomVersionMeta["org.matrix.msc4014"].(RoomVersionImpl).newEventFromTrustedJSONWithEventIDFunc == newEventFromTrustedJSONWithEventIDV2
 //@   ensures table.org.matrix.hydra.11.present: "org.matrix.hydra.11" in roomVersionMeta
 //@   ensures table.org.matrix.hydra.11.ver: roomVersionMeta["org.matrix.hydra.11"].(RoomVersionImpl).ver == "org.matrix.hydra.11"
 //@   ensures table.org.matrix.hydra.11.stable: roomVersionMeta["org.matrix.hydra.11"].(RoomVersionImpl).stable == false
 //@   ensures table.org.matrix.hydra.11.stateResAlgorithm: roomVersionMeta["org.matrix.hydra.11"].(RoomVersionImpl).stateResAlgorithm == StateResV2_1
+//@   ensures C10.table.org.matrix.hydra.11.stateResAlgorithm: roomVersionMeta["org.matrix.hydra.11"].(RoomVersionImpl).stateResAlgorithm == StateResV2_1
 //@   ensures table.org.matrix.hydra.11.eventFormat: roomVersionMeta["org.matrix.hydra.11"].(RoomVersionImpl).eventFormat == EventFormatV2
+//@   ensures C03.table.org.matrix.hydra.11.eventFormat: roomVersionMeta["org.matrix.hydra.11"].(RoomVersionImpl).eventFormat == EventFormatV2
 //@   ensures table.org.matrix.hydra.11.eventIDFormat: roomVersionMeta["org.matrix.hydra.11"].(RoomVersionImpl).eventIDFormat == EventIDFormatV3
+//@   ensures C06.table.org.matrix.hydra.11.eventIDFormat: roomVersionMeta["org.matrix.hydra.11"].(RoomVersionImpl).eventIDFormat == EventIDFormatV3
+//@   ensures C03.table.org.matrix.hydra.11.eventIDFormat: roomVersionMeta["org.matrix.hydra.11"].(RoomVersionImpl).eventIDFormat == EventIDFormatV3
 //@   ensures table.org.matrix.hydra.11.redactionAlgorithm: roomVersionMeta["org.matrix.hydra.11"].(RoomVersionImpl).redactionAlgorithm == redactEventJSONV5
+//@   ensures C06.table.org.matrix.hydra.11.redactionAlgorithm: roomVersionMeta["org.matrix.hydra.11"].(RoomVersionImpl).redactionAlgorithm == redactEventJSONV5
+//@   ensures C05.table.org.matrix.hydra.11.redactionAlgorithm: roomVersionMeta["org.matrix.hydra.11"].(RoomVersionImpl).redactionAlgorithm == redactEventJSONV5
 //@   ensures table.org.matrix.hydra.11.signatureValidityCheckFunc: roomVersionMeta["org.matrix.hydra.11"].(RoomVersionImpl).signatureValidityCheckFunc == StrictValiditySignatureCheck
+//@   ensures C06.table.org.matrix.hydra.11.signatureValidityCheckFunc: roomVersionMeta["org.matrix.hydra.11"].(RoomVersionImpl).signatureValidityCheckFunc == StrictValiditySignatureCheck
 //@   ensures table.org.matrix.hydra.11.canonicalJSONCheck: roomVersionMeta["org.matrix.hydra.11"].(RoomVersionImpl).canonicalJSONCheck == verifyEnforcedCanonicalJSON
+//@   ensures C01.table.org.matrix.hydra.11.canonicalJSONCheck: roomVersionMeta["org.matrix.hydra.11"].(RoomVersionImpl).canonicalJSONCheck == verifyEnforcedCanonicalJSON
 //@   ensures table.org.matrix.hydra.11.checkPowerLevelEvent: roomVersionMeta["org.matrix.hydra.11"].(RoomVersionImpl).checkPowerLevelEvent == checkPowerLevelEventV3
+//@   ensures C07.table.org.matrix.hydra.11.checkPowerLevelEvent: roomVersionMeta["org.matrix.hydra.11"].(RoomVersionImpl).checkPowerLevelEvent == checkPowerLevelEventV3
+//@   ensures C08.table.org.matrix.hydra.11.checkPowerLevelEvent: roomVersionMeta["org.matrix.hydra.11"].(RoomVersionImpl).checkPowerLevelEvent == checkPowerLevelEventV3
 //@   ensures table.org.matrix.hydra.11.parsePowerLevelsFunc: roomVersionMeta["org.matrix.hydra.11"].(RoomVersionImpl).parsePowerLevelsFunc == parseIntegerPowerLevels
+//@   ensures C08.table.org.matrix.hydra.11.parsePowerLevelsFunc: roomVersionMeta["org.matrix.hydra.11"].(RoomVersionImpl).parsePowerLevelsFunc == parseIntegerPowerLevels
 //@   ensures table.org.matrix.hydra.11.domainlessRoomID: roomVersionMeta["org.matrix.hydra.11"].(RoomVersionImpl).domainlessRoomID == true
 //@   ensures table.org.matrix.hydra.11.privilegedCreators: roomVersionMeta["org.matrix.hydra.11"].(RoomVersionImpl).privilegedCreators == true
+//@   ensures C07.table.org.matrix.hydra.11.privilegedCreators: roomVersionMeta["org.matrix.hydra.11"].(RoomVersionImpl).privilegedCreators == true
 //@   ensures table.org.matrix.hydra.11.checkRestrictedJoin: roomVersionMeta["org.matrix.hydra.11"].(RoomVersionImpl).checkRestrictedJoin == checkRestrictedJoin
 //@   ensures table.org.matrix.hydra.11.restrictedJoinServernameFunc: roomVersionMeta["org.matrix.hydra.11"].(RoomVersionImpl).restrictedJoinServernameFunc == extractAuthorisedViaServerName
+//@   ensures C06.table.org.matrix.hydra.11.restrictedJoinServernameFunc: roomVersionMeta["org.matrix.hydra.11"].(RoomVersionImpl).restrictedJoinServernameFunc == extractAuthorisedViaServerName
 //@   ensures table.org.matrix.hydra.11.checkRestrictedJoinAllowedFunc: roomVersionMeta["org.matrix.hydra.11"].(RoomVersionImpl).checkRestrictedJoinAllowedFunc == allowRestrictedJoins
+//@   ensures C07.table.org.matrix.hydra.11.checkRestrictedJoinAllowedFunc: roomVersionMeta["org.matrix.hydra.11"].(RoomVersionImpl).checkRestrictedJoinAllowedFunc == allowRestrictedJoins
 //@   ensures table.org.matrix.hydra.11.checkKnockingAllowedFunc: roomVersionMeta["org.matrix.hydra.11"].(RoomVersionImpl).checkKnockingAllowedFunc == checkKnocking
+//@   ensures C07.table.org.matrix.hydra.11.checkKnockingAllowedFunc: roomVersionMeta["org.matrix.hydra.11"].(RoomVersionImpl).checkKnockingAllowedFunc == checkKnocking
 //@   ensures table.org.matrix.hydra.11.checkCreateEvent: roomVersionMeta["org.matrix.hydra.11"].(RoomVersionImpl).checkCreateEvent == checkCreateEventV3
+//@   ensures C07.table.org.matrix.hydra.11.checkCreateEvent: roomVersionMeta["org.matrix.hydra.11"].(RoomVersionImpl).checkCreateEvent == checkCreateEventV3
 //@   ensures table.org.matrix.hydra.11.newEventFromUntrustedJSONFunc: roomVersionMeta["org.matrix.hydra.11"].(RoomVersionImpl).newEventFromUntrustedJSONFunc == newEventFromUntrustedJSONV3
+//@   ensures C03.table.org.matrix.hydra.11.newEventFromUntrustedJSONFunc: roomVersionMeta["org.matrix.hydra.11"].(RoomVersionImpl).newEventFromUntrustedJSONFunc == newEventFromUntrustedJSONV3
+//@   ensures C04.table.org.matrix.hydra.11.newEventFromUntrustedJSONFunc: roomVersionMeta["org.matrix.hydra.11"].(RoomVersionImpl).newEventFromUntrustedJSONFunc == newEventFromUntrustedJSONV3
 //@   ensures table.org.matrix.hydra.11.newEventFromTrustedJSONFunc: roomVersionMeta["org.matrix.hydra.11"].(RoomVersionImpl).newEventFromTrustedJSONFunc == newEventFromTrustedJSONV3
+//@   ensures C03.table.org.matrix.hydra.11.newEventFromTrustedJSONFunc: roomVersionMeta["org.matrix.hydra.11"].(RoomVersionImpl).newEventFromTrustedJSONFunc == newEventFromTrustedJSONV3
 //@   ensures table.org.matrix.hydra.11.newEventFromTrustedJSONWithEventIDFunc: roomVersionMeta["org.matrix.hydra.11"].(RoomVersionImpl).newEventFromTrustedJSONWithEventIDFunc == newEventFromTrustedJSONWithEventIDV3
+//@   ensures C03.table.org.matrix.hydra.11.newEventFromTrustedJSONWithEventIDFunc: roomVersionMeta["org.matrix.hydra.11"].(RoomVersionImpl).newEventFromTrustedJSONWithEventIDFunc == newEventFromTrustedJSONWithEventIDV3
 
 //@ func (RoomVersionImpl).PrivilegedCreators
 //@   property C17
